@@ -1,5 +1,2347 @@
-//! C07 - monitor not built yet.
+//! C07 - Store wrappers behave as a conforming object store with real CAS.
+//!
+//! Monitors (DESIGN.md C07):
+//! * `seq`: differential execution of generated call sequences on MetaStore / EncryptedStore
+//!   (over InMemory) against a bare `object_store::memory::InMemory`, with a token ledger (CAS
+//!   oracle independent of the reference store), an internal-consistency audit of the wrapper
+//!   (get/head/three listings report one size, token, timestamp per commit), cold-instance swaps
+//!   and strictly sequential writes through a second, lagging instance.
+//! * `conc`: 2-3 concurrent calls on one key, interleaved at every backend call (RecStore gate
+//!   below the wrapper + manual executor; DFS within a budget, random beyond), judged against the
+//!   set of linearizations.
+
+use anda_object_store::{EncryptedStoreBuilder, MetaStoreBuilder};
+use bytes::Bytes;
+use chrono::{DateTime, TimeDelta, Utc};
+use futures::{StreamExt, TryStreamExt};
+use object_store::memory::InMemory;
+use object_store::path::Path;
+use object_store::{
+    Attribute, Attributes, CopyMode, CopyOptions, Error, GetOptions, GetRange, MultipartUpload,
+    ObjectMeta, ObjectStore, ObjectStoreExt, PutMode, PutMultipartOptions, PutOptions, PutPayload,
+    RenameOptions, RenameTargetMode, UpdateVersion,
+};
+use std::collections::{BTreeSet, HashMap};
+use std::ops::Range;
+use std::sync::Arc;
+use vcore::manual::{Chooser, DfsChooser, ManualExec, RandChooser};
+use vcore::recstore::RecStore;
+use vcore::{Rng, Run, Stats, Value, json};
+
+// ---------------------------------------------------------------------------------------------
+// basics
+
+const KEYS: [&str; 6] = ["a", "a/b", "a/b/c", "ab", "d/e", "d/f"];
+/// "" stands for `None`
+const PREFIXES: [&str; 8] = ["", "a", "a/b", "a/b/c", "ab", "d", "d/e", "x"];
+const OFFSETS: [&str; 9] = ["", "a", "a/b", "a/b/c", "aa", "ab", "d", "d/e", "zz"];
+const CHUNKS: [u64; 4] = [1, 7, 16, 65536];
+
+#[derive(Clone, Copy, Debug, PartialEq, Eq, Hash)]
+enum EK {
+    NotFound,
+    AlreadyExists,
+    Precondition,
+    NotModified,
+    NotSupported,
+    Other,
+}
+
+fn ek(e: &Error) -> EK {
+    match e {
+        Error::NotFound { .. } => EK::NotFound,
+        Error::AlreadyExists { .. } => EK::AlreadyExists,
+        Error::Precondition { .. } => EK::Precondition,
+        Error::NotModified { .. } => EK::NotModified,
+        Error::NotSupported { .. } | Error::NotImplemented { .. } => EK::NotSupported,
+        _ => EK::Other,
+    }
+}
+
+impl EK {
+    fn name(self) -> &'static str {
+        match self {
+            EK::NotFound => "NotFound",
+            EK::AlreadyExists => "AlreadyExists",
+            EK::Precondition => "Precondition",
+            EK::NotModified => "NotModified",
+            EK::NotSupported => "NotSupported",
+            EK::Other => "Other",
+        }
+    }
+}
+
+#[derive(Clone, Copy, Debug, PartialEq, Eq)]
+enum Cfg {
+    Meta,
+    Enc(u64),
+}
+
+impl Cfg {
+    fn family(self) -> &'static str {
+        match self {
+            Cfg::Meta => "meta",
+            Cfg::Enc(_) => "enc",
+        }
+    }
+    fn tag(self) -> String {
+        match self {
+            Cfg::Meta => "meta".into(),
+            Cfg::Enc(c) => format!("enc{c}"),
+        }
+    }
+    /// chunk size (a nominal one for MetaStore, used only to pick payload sizes and ranges)
+    fn chunk(self) -> u64 {
+        match self {
+            Cfg::Meta => 16,
+            Cfg::Enc(c) => c,
+        }
+    }
+}
+
+fn build<T: ObjectStore + Clone>(cfg: Cfg, inner: &T) -> Arc<dyn ObjectStore> {
+    match cfg {
+        Cfg::Meta => Arc::new(MetaStoreBuilder::new(inner.clone(), 1000).build()),
+        Cfg::Enc(c) => Arc::new(
+            EncryptedStoreBuilder::with_secret(inner.clone(), 1000, [7u8; 32])
+                .with_chunk_size(c)
+                .build(),
+        ),
+    }
+}
+
+fn pattern(pat: u8, size: usize) -> Bytes {
+    let mut v = Vec::with_capacity(size);
+    for i in 0..size {
+        let x = (i as u32).wrapping_mul(2654435761).rotate_left(pat as u32 + 3) >> 11;
+        v.push(x as u8 ^ pat.wrapping_mul(37).wrapping_add(1));
+    }
+    Bytes::from(v)
+}
+
+#[derive(Clone)]
+struct Payload {
+    pat: u8,
+    size: usize,
+    cuts: Vec<usize>,
+}
+
+impl std::fmt::Debug for Payload {
+    fn fmt(&self, f: &mut std::fmt::Formatter<'_>) -> std::fmt::Result {
+        write!(f, "P{}x{}/{:?}", self.pat, self.size, self.cuts)
+    }
+}
+
+impl Payload {
+    fn bytes(&self) -> Bytes {
+        pattern(self.pat, self.size)
+    }
+    fn put_payload(&self) -> PutPayload {
+        let b = self.bytes();
+        if self.cuts.is_empty() {
+            return PutPayload::from_bytes(b);
+        }
+        let mut segs = vec![];
+        let mut prev = 0;
+        for c in self.cuts.iter().copied().chain(std::iter::once(self.size)) {
+            segs.push(b.slice(prev..c));
+            prev = c;
+        }
+        segs.into_iter().collect()
+    }
+}
+
+fn sizes_for(c: u64) -> Vec<usize> {
+    let c = c as usize;
+    let mut v = vec![0, 1, c.saturating_sub(1), c, c + 1, 2 * c, 3 * c + 1];
+    v.sort_unstable();
+    v.dedup();
+    v
+}
+
+fn size_class(size: u64, c: u64) -> &'static str {
+    if size == 0 {
+        "0"
+    } else if size < c {
+        "<c"
+    } else if size == c {
+        "=c"
+    } else if size % c == 0 {
+        "kc"
+    } else {
+        ">c"
+    }
+}
+
+fn gen_payload(rng: &mut Rng, c: u64, small_only: bool) -> Payload {
+    let mut sizes = sizes_for(c);
+    if small_only {
+        sizes.retain(|s| *s <= 2 * c as usize + 1);
+    }
+    let size = *rng.pick(&sizes);
+    let pat = rng.below(3) as u8;
+    let mut cuts = vec![];
+    if size > 0 && rng.chance(2, 5) {
+        let n = 1 + rng.usize(3);
+        for _ in 0..n {
+            // cut points near chunk boundaries and anywhere (empty segments included)
+            let p = match rng.below(3) {
+                0 => rng.usize(size + 1),
+                1 => (c as usize).min(size),
+                _ => (c as usize + 1).min(size),
+            };
+            cuts.push(p);
+        }
+        cuts.sort_unstable();
+    }
+    Payload { pat, size, cuts }
+}
+
+/// interesting byte positions of an object of size `s` stored with chunk size `c`
+fn points(s: u64, c: u64) -> Vec<u64> {
+    let mut v = vec![
+        0,
+        1,
+        c.saturating_sub(1),
+        c,
+        c + 1,
+        (2 * c).saturating_sub(1),
+        2 * c,
+        2 * c + 1,
+        3 * c,
+        s.saturating_sub(1),
+        s,
+        s + 1,
+        s + c,
+        s / 2,
+    ];
+    v.sort_unstable();
+    v.dedup();
+    v
+}
+
+fn gen_range(rng: &mut Rng, s: u64, c: u64) -> GetRange {
+    let pts = points(s, c);
+    match rng.weighted(&[50, 20, 20]) {
+        0 => {
+            let a = *rng.pick(&pts);
+            let b = *rng.pick(&pts);
+            if rng.chance(9, 10) && a > b {
+                GetRange::Bounded(b..a)
+            } else {
+                GetRange::Bounded(a..b) // empty and inverted ones included
+            }
+        }
+        1 => GetRange::Offset(*rng.pick(&pts)),
+        _ => GetRange::Suffix(*rng.pick(&pts)),
+    }
+}
+
+/// (kind label, resolved range when valid)
+fn classify_range(r: &GetRange, s: u64) -> (&'static str, Option<Range<u64>>) {
+    let res = r.as_range(s).ok();
+    let kind = match r {
+        GetRange::Bounded(b) if b.start == b.end => "bounded_empty",
+        GetRange::Bounded(b) if b.start > b.end => "bounded_inverted",
+        GetRange::Bounded(b) if b.start >= s => "bounded_start_past_end",
+        GetRange::Bounded(b) if b.end > s => "bounded_end_past_end",
+        GetRange::Bounded(_) => "bounded",
+        GetRange::Offset(o) if *o >= s => "offset_past_end",
+        GetRange::Offset(_) => "offset",
+        GetRange::Suffix(0) => "suffix_zero",
+        GetRange::Suffix(n) if *n > s => "suffix_larger_than_object",
+        GetRange::Suffix(_) => "suffix",
+    };
+    (kind, res)
+}
+
+fn crosses_chunk(r: &Range<u64>, c: u64) -> bool {
+    r.end > r.start && r.start / c != (r.end - 1) / c
+}
+
+fn digest(b: &[u8]) -> String {
+    format!("{}B:{:016x}:{:?}", b.len(), vcore::fnv(b), &b[..b.len().min(6)])
+}
+
+// ---------------------------------------------------------------------------------------------
+// panics raised while a wrapper call is on the stack (e.g. a slice index out of range inside a
+// dependency, reached from the wrapper's range arithmetic) are findings, not harness faults
+
+thread_local! {
+    static TARGET_PANIC: std::cell::RefCell<Option<String>> = const { std::cell::RefCell::new(None) };
+}
+
+fn install_target_panic_hook() {
+    let prev = std::panic::take_hook();
+    std::panic::set_hook(Box::new(move |info| {
+        let bt = std::backtrace::Backtrace::force_capture().to_string();
+        if bt.contains("anda_object_store::") {
+            let loc = info.location().map(|l| format!("{}:{}", l.file(), l.line())).unwrap_or_default();
+            let msg = if let Some(s) = info.payload().downcast_ref::<&str>() {
+                s.to_string()
+            } else if let Some(s) = info.payload().downcast_ref::<String>() {
+                s.clone()
+            } else {
+                "<non-string panic>".to_string()
+            };
+            TARGET_PANIC.with(|c| *c.borrow_mut() = Some(format!("{msg} (at {loc})")));
+        }
+        prev(info);
+    }));
+}
+
+/// Runs `f`; a panic with the wrapper on the stack becomes a violation, any other panic is
+/// passed on (vcore reports it as a harness fault).
+fn guard_target_panics<R>(f: impl FnOnce() -> R) -> Result<R, String> {
+    TARGET_PANIC.with(|c| *c.borrow_mut() = None);
+    match std::panic::catch_unwind(std::panic::AssertUnwindSafe(f)) {
+        Ok(r) => Ok(r),
+        Err(p) => match TARGET_PANIC.with(|c| c.borrow_mut().take()) {
+            Some(msg) => Err(msg),
+            None => std::panic::resume_unwind(p),
+        },
+    }
+}
+
+// ---------------------------------------------------------------------------------------------
+// symbolic tokens and conditions
+
+#[derive(Clone, Debug, PartialEq)]
+enum Tok {
+    /// token of commit #n of key k
+    C(usize, usize),
+    Bogus,
+}
+
+#[derive(Clone, Debug)]
+enum Part {
+    T(Tok),
+    L(&'static str),
+}
+
+#[derive(Clone, Debug)]
+struct TagSpec {
+    parts: Vec<Part>,
+    sep: &'static str,
+    pad: bool,
+    shape: &'static str,
+}
+
+#[derive(Clone, Debug, Default)]
+struct Cond {
+    im: Option<TagSpec>,
+    inm: Option<TagSpec>,
+    /// if_modified_since = last_modified + delta ms
+    ims: Option<i64>,
+    ius: Option<i64>,
+}
+
+impl Cond {
+    fn shape(&self) -> String {
+        format!(
+            "im:{}|inm:{}|ims:{}|ius:{}",
+            self.im.as_ref().map(|t| t.shape).unwrap_or("-"),
+            self.inm.as_ref().map(|t| t.shape).unwrap_or("-"),
+            self.ims.map(|d| d.signum().to_string()).unwrap_or("-".into()),
+            self.ius.map(|d| d.signum().to_string()).unwrap_or("-".into()),
+        )
+    }
+}
+
+#[derive(Clone, Copy, PartialEq)]
+enum Side {
+    W,
+    R,
+}
+
+#[derive(Clone, Debug)]
+enum ModeSpec {
+    Overwrite,
+    Create,
+    Update {
+        tok: Option<Tok>,
+        version: bool,
+        label: &'static str,
+    },
+}
+
+impl ModeSpec {
+    fn label(&self) -> String {
+        match self {
+            ModeSpec::Overwrite => "Overwrite".into(),
+            ModeSpec::Create => "Create".into(),
+            ModeSpec::Update { label, .. } => format!("Update[{label}]"),
+        }
+    }
+}
+
+#[derive(Clone, Copy, Debug, PartialEq)]
+enum MpEnd {
+    Complete,
+    Abort,
+    Drop,
+}
+
+#[derive(Clone, Debug)]
+enum Op {
+    Put { k: usize, mode: ModeSpec, pl: Payload, attrs: bool, via_lagging: bool },
+    Multipart { k: usize, parts: Vec<Payload>, end: MpEnd, defer: bool, attrs: bool },
+    FinishUpload { idx: usize },
+    Get { k: usize, range: Option<GetRange>, cond: Cond, head: bool },
+    GetRanges { k: usize, ranges: Vec<Range<u64>> },
+    List { prefix: usize },
+    ListOffset { prefix: usize, offset: usize },
+    ListDelim { prefix: usize },
+    Delete { k: usize },
+    DeleteStream { ks: Vec<usize> },
+    Copy { from: usize, to: usize, create: bool },
+    Rename { from: usize, to: usize, create: bool },
+    Aba { k: usize, a: Payload, b: Payload },
+    ColdSwap { chunk: Option<u64>, probe: bool },
+}
+
+struct Commit {
+    wtok: String,
+    rtok: String,
+    size: u64,
+    wlm: DateTime<Utc>,
+    rlm: DateTime<Utc>,
+    data: Bytes,
+    hash: u64,
+    /// chunk size the payload was encrypted with (follows copies)
+    chunk: u64,
+}
+
+#[derive(Default)]
+struct KeyState {
+    commits: Vec<Commit>,
+    present: bool,
+}
+
+struct OpenUpload {
+    k: usize,
+    w: Box<dyn MultipartUpload>,
+    r: Box<dyn MultipartUpload>,
+    data: Vec<u8>,
+    end: MpEnd,
+    chunk: u64,
+}
+
+struct World {
+    cfg: Cfg,
+    inner: InMemory,
+    w: Arc<dyn ObjectStore>,
+    /// previous instance kept after a cold swap: its metadata cache lags behind
+    lagging: Option<(Arc<dyn ObjectStore>, Cfg)>,
+    r: InMemory,
+    keys: Vec<Path>,
+    ks: Vec<KeyState>,
+    wtoks: HashMap<String, (usize, usize)>,
+    rtoks: HashMap<String, (usize, usize)>,
+    uploads: Vec<OpenUpload>,
+    history: Vec<String>,
+    shapes: Vec<String>,
+    kinds: BTreeSet<&'static str>,
+    failed: bool,
+}
+
+// ---------------------------------------------------------------------------------------------
+// world: helpers, ledger, audit
+
+type NMeta = (String, u64, String);
+
+impl World {
+    fn new(cfg: Cfg) -> World {
+        let inner = InMemory::new();
+        let w = build(cfg, &inner);
+        World {
+            cfg,
+            inner,
+            w,
+            lagging: None,
+            r: InMemory::new(),
+            keys: KEYS.iter().map(|k| Path::from(*k)).collect(),
+            ks: (0..KEYS.len()).map(|_| KeyState::default()).collect(),
+            wtoks: HashMap::new(),
+            rtoks: HashMap::new(),
+            uploads: vec![],
+            history: vec![format!("init cfg={}", cfg.tag())],
+            shapes: vec![],
+            kinds: BTreeSet::new(),
+            failed: false,
+        }
+    }
+
+    fn viol(&mut self, st: &mut Stats, sig: &str, detail: Value) {
+        self.failed = true;
+        st.violation(
+            format!("C07/{}/{}", self.cfg.family(), sig),
+            json!({"cfg": self.cfg.tag(), "what": detail, "history": self.history}),
+        );
+    }
+
+    fn shape(&mut self, st: &mut Stats, kind: &'static str, s: String) {
+        let full = format!("{}|{}|{}", self.cfg.tag(), kind, s);
+        st.set("call_shapes", vcore::fnv_str(&full));
+        st.count(&format!("call:{kind}"));
+        self.kinds.insert(kind);
+        self.shapes.push(format!("{kind}|{s}"));
+    }
+
+    fn cur(&self, k: usize) -> Option<&Commit> {
+        if self.ks[k].present { self.ks[k].commits.last() } else { None }
+    }
+    fn present_set(&self) -> BTreeSet<usize> {
+        (0..self.ks.len()).filter(|k| self.ks[*k].present).collect()
+    }
+
+    fn tok_cur(&self, k: usize) -> Tok {
+        match self.ks[k].commits.len() {
+            0 => Tok::Bogus,
+            n => Tok::C(k, n - 1),
+        }
+    }
+    fn tok_stale(&self, rng: &mut Rng, k: usize) -> Tok {
+        let n = self.ks[k].commits.len();
+        if n >= 2 { Tok::C(k, rng.usize(n - 1)) } else { Tok::Bogus }
+    }
+    fn tok_foreign(&self, rng: &mut Rng, k: usize) -> Tok {
+        let others: Vec<usize> =
+            (0..self.ks.len()).filter(|o| *o != k && !self.ks[*o].commits.is_empty()).collect();
+        if others.is_empty() {
+            return Tok::Bogus;
+        }
+        // prefer the current token of a present key
+        let present: Vec<usize> = others.iter().copied().filter(|o| self.ks[*o].present).collect();
+        let o = if !present.is_empty() { *rng.pick(&present) } else { *rng.pick(&others) };
+        Tok::C(o, self.ks[o].commits.len() - 1)
+    }
+
+    fn concrete(&self, side: Side, t: &Tok) -> String {
+        match t {
+            Tok::Bogus => "nope".into(),
+            Tok::C(k, n) => {
+                let c = &self.ks[*k].commits[*n];
+                if side == Side::W { c.wtok.clone() } else { c.rtok.clone() }
+            }
+        }
+    }
+
+    fn tagspec(&self, side: Side, t: &TagSpec) -> String {
+        let parts: Vec<String> = t
+            .parts
+            .iter()
+            .map(|p| match p {
+                Part::T(t) => self.concrete(side, t),
+                Part::L(s) => s.to_string(),
+            })
+            .collect();
+        let s = parts.join(t.sep);
+        if t.pad { format!(" {s} ") } else { s }
+    }
+
+    fn tokid(&self, side: Side, raw: &Option<String>) -> String {
+        match raw {
+            None => "<none>".into(),
+            Some(t) => {
+                let m = if side == Side::W { &self.wtoks } else { &self.rtoks };
+                match m.get(t) {
+                    Some((k, n)) => format!("{}#{}", KEYS[*k], n),
+                    None => format!("?{t}"),
+                }
+            }
+        }
+    }
+
+    fn nmeta(&self, side: Side, m: &ObjectMeta) -> NMeta {
+        (m.location.to_string(), m.size, self.tokid(side, &m.e_tag))
+    }
+
+    fn nmetas(&self, side: Side, ms: &[ObjectMeta]) -> Vec<NMeta> {
+        let mut v: Vec<NMeta> = ms.iter().map(|m| self.nmeta(side, m)).collect();
+        v.sort();
+        v
+    }
+
+    fn get_options(
+        &self,
+        side: Side,
+        k: usize,
+        range: &Option<GetRange>,
+        cond: &Cond,
+        head: bool,
+    ) -> GetOptions {
+        let lm = match self.ks[k].commits.last() {
+            Some(c) => {
+                if side == Side::W { c.wlm } else { c.rlm }
+            }
+            None => DateTime::<Utc>::from_timestamp(1_700_000_000, 0).unwrap(),
+        };
+        GetOptions {
+            range: range.clone(),
+            head,
+            if_match: cond.im.as_ref().map(|t| self.tagspec(side, t)),
+            if_none_match: cond.inm.as_ref().map(|t| self.tagspec(side, t)),
+            if_modified_since: cond.ims.map(|d| lm + TimeDelta::milliseconds(d)),
+            if_unmodified_since: cond.ius.map(|d| lm + TimeDelta::milliseconds(d)),
+            ..Default::default()
+        }
+    }
+
+    /// Records commit #n of key k after a successful mutation on both sides.
+    #[allow(clippy::too_many_arguments)]
+    async fn register(
+        &mut self,
+        st: &mut Stats,
+        k: usize,
+        data: Bytes,
+        chunk: u64,
+        w_put_tok: Option<Option<String>>,
+        how: &str,
+    ) {
+        let key = self.keys[k].clone();
+        let wh = match self.w.head(&key).await {
+            Ok(m) => m,
+            Err(e) => {
+                self.viol(st, "consistency/head_after_commit", json!({"key": KEYS[k], "after": how, "error": e.to_string()}));
+                return;
+            }
+        };
+        let rh = match self.r.head(&key).await {
+            Ok(m) => m,
+            Err(e) => {
+                st.inconclusive(format!("reference store lost a key after {how}: {e}"));
+                self.failed = true;
+                return;
+            }
+        };
+        let Some(wtok) = wh.e_tag.clone() else {
+            self.viol(st, "cas/no_token", json!({"key": KEYS[k], "after": how}));
+            return;
+        };
+        let rtok = rh.e_tag.clone().unwrap_or_default();
+        st.count("oracle_commit_registered");
+        if let Some(pt) = &w_put_tok {
+            st.count("oracle_put_result_token_vs_head");
+            if pt.as_deref() != Some(wtok.as_str()) {
+                self.viol(st, "consistency/put_result_token", json!({"key": KEYS[k], "after": how, "put_result": pt, "head": wtok}));
+                return;
+            }
+        }
+        if wh.size != data.len() as u64 {
+            self.viol(st, "consistency/size_after_commit", json!({"key": KEYS[k], "after": how, "head_size": wh.size, "written": data.len()}));
+            return;
+        }
+        let hash = vcore::fnv(&data);
+        let n = self.ks[k].commits.len();
+        st.count("oracle_token_distinct");
+        if let Some((k0, n0)) = self.wtoks.get(&wtok).copied() {
+            let same = self.ks[k0].commits[n0].hash == hash;
+            self.viol(st, "cas/token_reused", json!({"token": wtok, "first": format!("{}#{}", KEYS[k0], n0),
+                "again": format!("{}#{}", KEYS[k], n), "after": how, "identical_bytes": same}));
+            return;
+        }
+        if self.ks[k].commits.iter().any(|c| c.hash == hash && c.size == data.len() as u64) {
+            st.count("commits_identical_bytes_same_key");
+        } else if self.ks.iter().any(|s| s.commits.iter().any(|c| c.hash == hash && c.size == data.len() as u64)) {
+            st.count("commits_identical_bytes_other_key");
+        }
+        if let Some(prev) = self.ks[k].commits.last() {
+            st.count("oracle_timestamp_monotone");
+            if wh.last_modified < prev.wlm {
+                let d = json!({"key": KEYS[k], "previous": prev.wlm.to_rfc3339(), "now": wh.last_modified.to_rfc3339()});
+                self.viol(st, "consistency/timestamp_decreased", d);
+                return;
+            }
+        }
+        self.wtoks.insert(wtok.clone(), (k, n));
+        self.rtoks.insert(rtok.clone(), (k, n));
+        self.ks[k].commits.push(Commit {
+            wtok,
+            rtok,
+            size: data.len() as u64,
+            wlm: wh.last_modified,
+            rlm: rh.last_modified,
+            hash,
+            data,
+            chunk,
+        });
+        self.ks[k].present = true;
+    }
+
+    /// One wrapper-side observation of a key must match the ledger's current commit.
+    fn check_triple(&mut self, st: &mut Stats, api: &str, k: usize, m: &ObjectMeta) {
+        st.count("oracle_triple_consistency");
+        let Some(c) = self.cur(k) else {
+            self.viol(st, &format!("consistency/{api}_sees_absent_key"), json!({"key": KEYS[k]}));
+            return;
+        };
+        let (size, tok, lm) = (c.size, c.wtok.clone(), c.wlm);
+        if m.size != size {
+            self.viol(st, &format!("consistency/{api}_size"), json!({"key": KEYS[k], "got": m.size, "commit": size}));
+        } else if m.e_tag.as_deref() != Some(tok.as_str()) {
+            let got = self.tokid(Side::W, &m.e_tag);
+            self.viol(st, &format!("consistency/{api}_token"), json!({"key": KEYS[k], "got": got, "commit_token": tok}));
+        } else if m.last_modified != lm {
+            self.viol(st, &format!("consistency/{api}_timestamp"), json!({"key": KEYS[k],
+                "got": m.last_modified.to_rfc3339(), "commit": lm.to_rfc3339()}));
+        }
+    }
+
+    fn key_index(&self, p: &Path) -> Option<usize> {
+        self.keys.iter().position(|k| k == p)
+    }
+
+    fn check_listing(&mut self, st: &mut Stats, api: &str, metas: &[ObjectMeta], expect: &BTreeSet<usize>) {
+        let mut seen = BTreeSet::new();
+        for m in metas {
+            let Some(k) = self.key_index(&m.location) else {
+                self.viol(st, &format!("consistency/{api}_unknown_location"), json!({"location": m.location.to_string()}));
+                return;
+            };
+            if !seen.insert(k) {
+                self.viol(st, &format!("consistency/{api}_duplicate"), json!({"key": KEYS[k]}));
+                return;
+            }
+            if self.ks[k].present {
+                self.check_triple(st, api, k, m);
+                if self.failed {
+                    return;
+                }
+            }
+        }
+        if &seen != expect {
+            let f = |s: &BTreeSet<usize>| s.iter().map(|k| KEYS[*k]).collect::<Vec<_>>();
+            self.viol(st, &format!("consistency/{api}_membership"), json!({"listed": f(&seen), "committed": f(expect)}));
+        }
+    }
+
+    /// Wrapper-side internal consistency: head + the three listings (+ full reads when `deep`).
+    async fn audit(&mut self, st: &mut Stats, deep: bool, when: &str) {
+        let present = self.present_set();
+        for k in 0..self.keys.len() {
+            let key = self.keys[k].clone();
+            match self.w.head(&key).await {
+                Ok(m) => self.check_triple(st, "head", k, &m),
+                Err(Error::NotFound { .. }) => {
+                    if self.ks[k].present {
+                        self.viol(st, "consistency/head_misses_key", json!({"key": KEYS[k], "when": when}));
+                    }
+                }
+                Err(e) => self.viol(st, "consistency/head_error", json!({"key": KEYS[k], "error": e.to_string(), "when": when})),
+            }
+            if self.failed {
+                return;
+            }
+        }
+        match self.w.list(None).try_collect::<Vec<_>>().await {
+            Ok(ms) => self.check_listing(st, "list", &ms, &present),
+            Err(e) => self.viol(st, "consistency/list_error", json!({"error": e.to_string(), "when": when})),
+        }
+        if self.failed {
+            return;
+        }
+        match self.w.list_with_offset(None, &Path::from("")).try_collect::<Vec<_>>().await {
+            Ok(ms) => self.check_listing(st, "list_with_offset", &ms, &present),
+            Err(e) => self.viol(st, "consistency/list_with_offset_error", json!({"error": e.to_string()})),
+        }
+        if self.failed {
+            return;
+        }
+        let mut all = vec![];
+        for p in [None, Some("a"), Some("a/b"), Some("d")] {
+            let pp = p.map(Path::from);
+            match self.w.list_with_delimiter(pp.as_ref()).await {
+                Ok(l) => all.extend(l.objects),
+                Err(e) => {
+                    self.viol(st, "consistency/list_with_delimiter_error", json!({"error": e.to_string()}));
+                    return;
+                }
+            }
+        }
+        self.check_listing(st, "list_with_delimiter", &all, &present);
+        if self.failed || !deep {
+            return;
+        }
+        for k in present {
+            let key = self.keys[k].clone();
+            st.count("oracle_deep_read");
+            match self.w.get(&key).await {
+                Ok(res) => {
+                    let meta = res.meta.clone();
+                    self.check_triple(st, "get", k, &meta);
+                    if self.failed {
+                        return;
+                    }
+                    match res.bytes().await {
+                        Ok(b) => {
+                            if b != self.cur(k).unwrap().data {
+                                let exp = digest(&self.cur(k).unwrap().data);
+                                self.viol(st, "consistency/read_back_bytes", json!({"key": KEYS[k], "when": when, "got": digest(&b), "committed": exp}));
+                                return;
+                            }
+                        }
+                        Err(e) => {
+                            self.viol(st, "consistency/read_back_stream_error", json!({"key": KEYS[k], "when": when, "error": e.to_string()}));
+                            return;
+                        }
+                    }
+                }
+                Err(e) => {
+                    self.viol(st, "consistency/read_back_error", json!({"key": KEYS[k], "when": when, "error": e.to_string()}));
+                    return;
+                }
+            }
+        }
+    }
+}
+
+// ---------------------------------------------------------------------------------------------
+// generation
+
+fn attrs_for(pat: u8) -> Attributes {
+    let mut a = Attributes::new();
+    a.insert(Attribute::ContentType, format!("text/x-{pat}").into());
+    a
+}
+
+impl World {
+    fn gen_tagspec(&self, rng: &mut Rng, k: usize) -> TagSpec {
+        let cur = self.tok_cur(k);
+        let (parts, sep, pad, shape): (Vec<Part>, &'static str, bool, &'static str) =
+            match rng.weighted(&[22, 10, 10, 10, 8, 10, 8, 6, 8, 4, 4]) {
+                0 => (vec![Part::T(cur)], ",", false, "current"),
+                1 => (vec![Part::T(self.tok_stale(rng, k))], ",", false, "stale"),
+                2 => (vec![Part::T(self.tok_foreign(rng, k))], ",", false, "foreign"),
+                3 => (vec![Part::L("*")], ",", false, "star"),
+                4 => (vec![Part::L("nope")], ",", false, "wrong"),
+                5 => (vec![Part::L("nope"), Part::T(cur)], ", ", false, "list_hit"),
+                6 => (vec![Part::T(cur), Part::L("zzz")], ",", false, "list_hit_nospace"),
+                7 => (
+                    vec![Part::L("nope"), Part::T(self.tok_stale(rng, k)), Part::T(self.tok_foreign(rng, k))],
+                    ", ",
+                    false,
+                    "list_miss",
+                ),
+                8 => (vec![Part::T(cur)], ",", true, "padded"),
+                9 => (vec![Part::L("")], ",", false, "empty"),
+                _ => (vec![Part::L("*"), Part::T(cur)], ",", false, "star_in_list"),
+            };
+        TagSpec { parts, sep, pad, shape }
+    }
+
+    fn gen_cond(&self, rng: &mut Rng, k: usize) -> Cond {
+        const DELTAS: [i64; 5] = [-3_600_000, -1, 0, 1, 3_600_000];
+        let mut c = Cond::default();
+        if rng.chance(1, 3) {
+            c.im = Some(self.gen_tagspec(rng, k));
+        }
+        if rng.chance(1, 3) {
+            c.inm = Some(self.gen_tagspec(rng, k));
+        }
+        if rng.chance(1, 4) {
+            c.ims = Some(*rng.pick(&DELTAS));
+        }
+        if rng.chance(1, 4) {
+            c.ius = Some(*rng.pick(&DELTAS));
+        }
+        c
+    }
+
+    fn gen_mode(&self, rng: &mut Rng, k: usize) -> ModeSpec {
+        match rng.weighted(&[30, 16, 18, 10, 8, 5, 6, 5]) {
+            0 => ModeSpec::Overwrite,
+            1 => ModeSpec::Create,
+            2 => ModeSpec::Update { tok: Some(self.tok_cur(k)), version: false, label: "current" },
+            3 => ModeSpec::Update { tok: Some(self.tok_stale(rng, k)), version: false, label: "stale" },
+            4 => ModeSpec::Update { tok: Some(self.tok_foreign(rng, k)), version: false, label: "foreign" },
+            5 => ModeSpec::Update { tok: Some(Tok::Bogus), version: false, label: "bogus" },
+            6 => ModeSpec::Update { tok: Some(self.tok_cur(k)), version: true, label: "with_version" },
+            _ => ModeSpec::Update { tok: None, version: false, label: "no_etag" },
+        }
+    }
+
+    fn pick_key(&self, rng: &mut Rng, want_present: bool) -> usize {
+        let p: Vec<usize> = self.present_set().into_iter().collect();
+        if want_present && !p.is_empty() && rng.chance(4, 5) {
+            *rng.pick(&p)
+        } else {
+            rng.usize(KEYS.len())
+        }
+    }
+
+    fn gen_op(&self, rng: &mut Rng, step: usize) -> Op {
+        let c = self.cfg.chunk();
+        let big = c > 1000;
+        if step < 3 {
+            return Op::Put { k: rng.usize(KEYS.len()), mode: ModeSpec::Overwrite, pl: gen_payload(rng, c, false), attrs: rng.bool(), via_lagging: false };
+        }
+        let w_fin = if self.uploads.is_empty() { 0 } else { 8 };
+        let w_lag = if self.lagging.is_some() && self.uploads.is_empty() { 6 } else { 0 };
+        let w_swap = if self.uploads.is_empty() { 5 } else { 0 };
+        // put, multipart, finish upload, get, head, get_ranges, list, list_with_offset,
+        // list_with_delimiter, delete, delete_stream, copy, rename, A->B->A, cold swap, lagging put
+        match rng.weighted(&[20, 6, w_fin, 22, 7, 5, 3, 3, 4, 5, 2, 6, 5, 2, w_swap, w_lag]) {
+            0 => {
+                let k = self.pick_key(rng, false);
+                Op::Put { k, mode: self.gen_mode(rng, k), pl: gen_payload(rng, c, false), attrs: rng.chance(1, 3), via_lagging: false }
+            }
+            1 => {
+                let n = if big { rng.usize(3) } else { rng.usize(5) };
+                let mut psz: Vec<usize> = vec![0, 1, (c as usize).saturating_sub(1), c as usize, c as usize + 1, 2 * c as usize, 2 * c as usize + 1, (c as usize).div_ceil(2)];
+                psz.dedup();
+                let parts = (0..n)
+                    .map(|_| {
+                        let size = *rng.pick(&psz);
+                        let cuts = if size > 1 && rng.chance(1, 4) { vec![rng.usize(size)] } else { vec![] };
+                        Payload { pat: rng.below(3) as u8, size, cuts }
+                    })
+                    .collect();
+                let end = *rng.pick(&[MpEnd::Complete, MpEnd::Complete, MpEnd::Complete, MpEnd::Abort, MpEnd::Drop]);
+                Op::Multipart { k: self.pick_key(rng, false), parts, end, defer: rng.chance(1, 3), attrs: rng.chance(1, 4) }
+            }
+            2 => Op::FinishUpload { idx: rng.usize(self.uploads.len()) },
+            3 => {
+                let k = self.pick_key(rng, true);
+                let (s, oc) = self.cur(k).map(|x| (x.size, x.chunk)).unwrap_or((0, c));
+                let range = if rng.chance(3, 4) { Some(gen_range(rng, s, oc)) } else { None };
+                Op::Get { k, range, cond: self.gen_cond(rng, k), head: rng.chance(1, 8) }
+            }
+            4 => {
+                let k = self.pick_key(rng, true);
+                let cond = if rng.chance(1, 3) { self.gen_cond(rng, k) } else { Cond::default() };
+                Op::Get { k, range: None, cond, head: true }
+            }
+            5 => {
+                let k = self.pick_key(rng, true);
+                let (s, oc) = self.cur(k).map(|x| (x.size, x.chunk)).unwrap_or((0, c));
+                let pts = points(s, oc);
+                let n = rng.usize(5);
+                let mut ranges: Vec<Range<u64>> = (0..n)
+                    .map(|_| {
+                        let (a, b) = (*rng.pick(&pts), *rng.pick(&pts));
+                        if a > b && rng.chance(9, 10) { b..a } else { a..b }
+                    })
+                    .collect();
+                if n >= 2 && rng.chance(1, 3) {
+                    ranges[n - 1] = ranges[0].clone(); // repeated
+                }
+                // mostly valid lists: drop invalid entries 2 times out of 3
+                if rng.chance(2, 3) {
+                    ranges.retain(|r| r.start < r.end && r.end <= s);
+                }
+                Op::GetRanges { k, ranges }
+            }
+            6 => Op::List { prefix: rng.usize(PREFIXES.len()) },
+            7 => Op::ListOffset { prefix: rng.usize(PREFIXES.len()), offset: rng.usize(OFFSETS.len()) },
+            8 => Op::ListDelim { prefix: rng.usize(PREFIXES.len()) },
+            9 => Op::Delete { k: self.pick_key(rng, true) },
+            10 => {
+                let mut ks: Vec<usize> = (0..KEYS.len()).collect();
+                rng.shuffle(&mut ks);
+                ks.truncate(1 + rng.usize(4));
+                Op::DeleteStream { ks }
+            }
+            11 => {
+                let from = self.pick_key(rng, true);
+                let to = if rng.chance(1, 8) { from } else { rng.usize(KEYS.len()) };
+                Op::Copy { from, to, create: rng.chance(2, 5) }
+            }
+            12 => {
+                let from = self.pick_key(rng, true);
+                let to = if rng.chance(1, 8) { from } else { rng.usize(KEYS.len()) };
+                Op::Rename { from, to, create: rng.chance(2, 5) }
+            }
+            13 => {
+                let a = gen_payload(rng, c, true);
+                let mut b = gen_payload(rng, c, true);
+                b.pat = (a.pat + 1) % 3;
+                if b.size == 0 {
+                    b.size = 1;
+                    b.cuts.clear();
+                }
+                Op::Aba { k: rng.usize(KEYS.len()), a, b }
+            }
+            14 => {
+                let chunk = match self.cfg {
+                    Cfg::Enc(cur) if rng.chance(1, 3) => {
+                        let others: Vec<u64> = CHUNKS.iter().copied().filter(|x| *x != cur && (*x < 1000 || cur > 1000 || rng.chance(1, 4))).collect();
+                        Some(*rng.pick(&others))
+                    }
+                    _ => None,
+                };
+                Op::ColdSwap { chunk, probe: rng.bool() }
+            }
+            _ => {
+                // a write through the lagging instance: the interesting tokens are the one that
+                // instance may still have cached (stale) and the really current one
+                let k = self.pick_key(rng, true);
+                let mode = match rng.weighted(&[30, 30, 15, 15, 10]) {
+                    0 => ModeSpec::Update { tok: Some(self.tok_cur(k)), version: false, label: "current" },
+                    1 => ModeSpec::Update { tok: Some(self.tok_stale(rng, k)), version: false, label: "stale" },
+                    2 => ModeSpec::Create,
+                    3 => ModeSpec::Overwrite,
+                    _ => ModeSpec::Update { tok: Some(self.tok_foreign(rng, k)), version: false, label: "foreign" },
+                };
+                Op::Put { k, mode, pl: gen_payload(rng, c, true), attrs: false, via_lagging: true }
+            }
+        }
+    }
+}
+
+// ---------------------------------------------------------------------------------------------
+// mutating calls
+
+fn res_kind<T>(r: &Result<T, Error>) -> String {
+    match r {
+        Ok(_) => "ok".into(),
+        Err(e) => ek(e).name().into(),
+    }
+}
+
+impl World {
+    /// put_opts on both sides + CAS oracle against the ledger. Returns whether it committed.
+    async fn do_put(
+        &mut self,
+        st: &mut Stats,
+        k: usize,
+        mode: &ModeSpec,
+        pl: &Payload,
+        attrs: bool,
+        via_lagging: bool,
+    ) -> bool {
+        let key = self.keys[k].clone();
+        let data = pl.bytes();
+        let present = self.ks[k].present;
+        let latest = self.ks[k].commits.len().checked_sub(1);
+        // what the ledger says must happen (independent of the reference store)
+        let (expect_ok, expect_err, skip_ref, ref_variant_free) = match mode {
+            ModeSpec::Overwrite => (true, EK::Other, false, false),
+            ModeSpec::Create => (!present, EK::AlreadyExists, false, false),
+            ModeSpec::Update { tok, version, .. } => {
+                let is_latest = matches!((tok, latest), (Some(Tok::C(tk, tn)), Some(l)) if *tk == k && *tn == l);
+                // documented: a version precondition never matches (versions are not reported);
+                // a missing e_tag is rejected with Precondition (InMemory: Generic)
+                (present && is_latest && !*version, EK::Precondition, *version, tok.is_none())
+            }
+        };
+        let mk_mode = |side: Side| match mode {
+            ModeSpec::Overwrite => PutMode::Overwrite,
+            ModeSpec::Create => PutMode::Create,
+            ModeSpec::Update { tok, version, .. } => PutMode::Update(UpdateVersion {
+                e_tag: tok.as_ref().map(|t| self.concrete(side, t)),
+                version: if *version { Some("v1".to_string()) } else { None },
+            }),
+        };
+        let mk_opts = |side: Side| PutOptions {
+            mode: mk_mode(side),
+            attributes: if attrs { attrs_for(pl.pat) } else { Attributes::new() },
+            ..Default::default()
+        };
+        let (store, chunk) = match (&self.lagging, via_lagging) {
+            (Some((s, c)), true) => (s.clone(), c.chunk()),
+            _ => (self.w.clone(), self.cfg.chunk()),
+        };
+        let via = via_lagging && self.lagging.is_some();
+        let wr = store.put_opts(&key, pl.put_payload(), mk_opts(Side::W)).await;
+        let rr = if skip_ref { None } else { Some(self.r.put_opts(&key, pl.put_payload(), mk_opts(Side::R)).await) };
+        let label = mode.label();
+        st.count(&format!("put:{}:{}{}", label, res_kind(&wr), if via { ":via_lagging_instance" } else { "" }));
+        if let ModeSpec::Update { label, .. } = mode {
+            if matches!(*label, "stale" | "foreign" | "bogus") {
+                st.count("update_attempts_stale_or_foreign_token");
+            }
+        }
+        let sc = size_class(pl.size as u64, chunk);
+        self.shape(st, "put_opts", format!("{label}|{sc}|segs{}|{}|{}", pl.cuts.len() + 1, res_kind(&wr), via));
+        // CAS oracle
+        st.count("oracle_cas_ledger");
+        match (&wr, expect_ok) {
+            (Ok(_), false) => {
+                let sig = match mode {
+                    ModeSpec::Create => "cas/create_succeeded_on_existing_key",
+                    _ => "cas/update_succeeded_without_latest_token",
+                };
+                self.viol(st, sig, json!({"key": KEYS[k], "mode": format!("{mode:?}"), "via_lagging_instance": via,
+                    "latest_commit": latest, "present": present}));
+                return false;
+            }
+            (Err(e), true) => {
+                let sig = match mode {
+                    ModeSpec::Create => "cas/create_rejected_on_absent_key",
+                    ModeSpec::Overwrite => "diff/put_overwrite_failed",
+                    _ => "cas/update_rejected_with_latest_token",
+                };
+                self.viol(st, sig, json!({"key": KEYS[k], "mode": format!("{mode:?}"), "via_lagging_instance": via, "error": e.to_string()}));
+                return false;
+            }
+            (Err(e), false) => {
+                if ek(e) != expect_err {
+                    self.viol(st, "diff/put_error_variant", json!({"key": KEYS[k], "mode": format!("{mode:?}"),
+                        "got": ek(e).name(), "expected": expect_err.name(), "error": e.to_string()}));
+                    return false;
+                }
+            }
+            (Ok(_), true) => {}
+        }
+        // differential
+        if let Some(rr) = &rr {
+            st.count("oracle_diff_put");
+            let same = match (&wr, rr) {
+                (Ok(_), Ok(_)) => true,
+                (Err(a), Err(b)) => ref_variant_free || ek(a) == ek(b),
+                _ => false,
+            };
+            if !same {
+                self.viol(st, "diff/put_result", json!({"key": KEYS[k], "mode": format!("{mode:?}"),
+                    "wrapper": res_kind(&wr), "reference": res_kind(rr)}));
+                return false;
+            }
+        }
+        match wr {
+            Ok(res) => {
+                self.register(st, k, data, chunk, Some(res.e_tag), "put_opts").await;
+                if via && !self.failed {
+                    // the primary instance's cache now lags: replace it by a cold one
+                    self.w = build(self.cfg, &self.inner);
+                    st.count("cold_swaps_after_lagging_write");
+                }
+                true
+            }
+            Err(_) => false,
+        }
+    }
+
+    async fn do_multipart(&mut self, st: &mut Stats, k: usize, parts: &[Payload], end: MpEnd, defer: bool, attrs: bool) {
+        let key = self.keys[k].clone();
+        let c = self.cfg.chunk();
+        let mk = || PutMultipartOptions {
+            attributes: if attrs { attrs_for(9) } else { Attributes::new() },
+            ..Default::default()
+        };
+        let wu = self.w.put_multipart_opts(&key, mk()).await;
+        let ru = self.r.put_multipart_opts(&key, mk()).await;
+        let (mut wu, mut ru) = match (wu, ru) {
+            (Ok(a), Ok(b)) => (a, b),
+            (a, b) => {
+                self.viol(st, "diff/multipart_init", json!({"key": KEYS[k], "wrapper": res_kind(&a), "reference": res_kind(&b)}));
+                return;
+            }
+        };
+        let mut data = vec![];
+        for p in parts {
+            let before = data.len() as u64;
+            data.extend_from_slice(&p.bytes());
+            let after = data.len() as u64;
+            if p.size > 0 && (before % c != 0 || after % c != 0) {
+                st.count("mp:part_not_chunk_aligned");
+            }
+            if p.size > 0 && before / c != (after - 1) / c {
+                st.count("mp:part_straddles_chunk_boundary");
+            }
+            let a = wu.put_part(p.put_payload()).await;
+            let b = ru.put_part(p.put_payload()).await;
+            st.count("call:put_part");
+            if a.is_ok() != b.is_ok() {
+                self.viol(st, "diff/multipart_put_part", json!({"key": KEYS[k], "wrapper": res_kind(&a), "reference": res_kind(&b)}));
+                return;
+            }
+        }
+        let szs: Vec<&str> = parts.iter().map(|p| size_class(p.size as u64, c)).collect();
+        self.shape(st, "put_multipart", format!("{szs:?}|{end:?}|defer{defer}"));
+        self.uploads.push(OpenUpload { k, w: wu, r: ru, data, end, chunk: c });
+        if !defer {
+            let idx = self.uploads.len() - 1;
+            self.finish_upload(st, idx).await;
+        } else {
+            st.count("mp:deferred_past_other_calls");
+        }
+    }
+
+    async fn finish_upload(&mut self, st: &mut Stats, idx: usize) {
+        let mut up = self.uploads.remove(idx);
+        let k = up.k;
+        match up.end {
+            MpEnd::Complete => {
+                let a = up.w.complete().await;
+                let b = up.r.complete().await;
+                st.count(&format!("mp:complete:{}", res_kind(&a)));
+                st.count("oracle_diff_multipart");
+                match (a, b) {
+                    (Ok(res), Ok(_)) => {
+                        self.register(st, k, Bytes::from(up.data), up.chunk, Some(res.e_tag), "multipart complete").await;
+                    }
+                    (a, b) => {
+                        if a.is_ok() != b.is_ok() {
+                            self.viol(st, "diff/multipart_complete", json!({"key": KEYS[k], "wrapper": res_kind(&a), "reference": res_kind(&b)}));
+                        }
+                    }
+                }
+            }
+            MpEnd::Abort => {
+                let a = up.w.abort().await;
+                let b = up.r.abort().await;
+                st.count(&format!("mp:abort:{}", res_kind(&a)));
+                if a.is_ok() != b.is_ok() {
+                    self.viol(st, "diff/multipart_abort", json!({"key": KEYS[k], "wrapper": res_kind(&a), "reference": res_kind(&b)}));
+                }
+            }
+            MpEnd::Drop => {
+                st.count("mp:dropped_without_complete");
+                drop(up);
+            }
+        }
+    }
+
+    async fn do_copy(&mut self, st: &mut Stats, from: usize, to: usize, create: bool, rename: bool) {
+        let (f, t) = (self.keys[from].clone(), self.keys[to].clone());
+        let src_present = self.ks[from].present;
+        let dst_present = self.ks[to].present;
+        let self_op = from == to;
+        let name: &'static str = if rename { "rename_opts" } else { "copy_opts" };
+        let expect: Result<(), EK> = if !src_present {
+            Err(EK::NotFound)
+        } else if create && dst_present {
+            Err(EK::AlreadyExists)
+        } else {
+            Ok(())
+        };
+        let wr = if rename {
+            let m = if create { RenameTargetMode::Create } else { RenameTargetMode::Overwrite };
+            self.w.rename_opts(&f, &t, RenameOptions::new().with_target_mode(m)).await
+        } else {
+            let m = if create { CopyMode::Create } else { CopyMode::Overwrite };
+            self.w.copy_opts(&f, &t, CopyOptions::new().with_mode(m)).await
+        };
+        // documented: a self-rename leaves the object untouched (the reference would destroy it
+        // by copy + delete), so the reference is not consulted for it
+        let rr = if rename && self_op {
+            None
+        } else if rename {
+            let m = if create { RenameTargetMode::Create } else { RenameTargetMode::Overwrite };
+            Some(self.r.rename_opts(&f, &t, RenameOptions::new().with_target_mode(m)).await)
+        } else {
+            let m = if create { CopyMode::Create } else { CopyMode::Overwrite };
+            Some(self.r.copy_opts(&f, &t, CopyOptions::new().with_mode(m)).await)
+        };
+        let mode = if create { "Create" } else { "Overwrite" };
+        st.count(&format!("{name}:{mode}:{}{}", res_kind(&wr), if self_op { ":self" } else { "" }));
+        self.shape(st, name, format!("{mode}|self{self_op}|src{src_present}|dst{dst_present}|{}", res_kind(&wr)));
+        st.count("oracle_diff_copy_rename");
+        let got: Result<(), EK> = wr.as_ref().map(|_| ()).map_err(ek);
+        if got != expect {
+            self.viol(st, &format!("diff/{name}_result"), json!({"from": KEYS[from], "to": KEYS[to], "mode": mode,
+                "wrapper": res_kind(&wr), "expected": format!("{expect:?}"), "source_present": src_present, "target_present": dst_present}));
+            return;
+        }
+        if let Some(rr) = &rr {
+            let rgot: Result<(), EK> = rr.as_ref().map(|_| ()).map_err(ek);
+            if rgot != got {
+                self.viol(st, &format!("diff/{name}_vs_reference"), json!({"from": KEYS[from], "to": KEYS[to], "mode": mode,
+                    "wrapper": res_kind(&wr), "reference": res_kind(rr)}));
+                return;
+            }
+        }
+        if wr.is_err() {
+            return;
+        }
+        if rename && self_op {
+            st.count("self_rename_left_object_untouched_checked");
+            return; // the audit after this call checks that the commit is unchanged
+        }
+        let (data, chunk) = {
+            let c = self.cur(from).unwrap();
+            (c.data.clone(), c.chunk)
+        };
+        self.register(st, to, data, chunk, None, name).await;
+        if rename && !self.failed {
+            self.ks[from].present = false;
+        }
+    }
+
+    async fn do_delete(&mut self, st: &mut Stats, k: usize) {
+        let key = self.keys[k].clone();
+        let present = self.ks[k].present;
+        let wr = self.w.delete(&key).await;
+        let rr = self.r.delete(&key).await;
+        st.count(&format!("delete:{}", res_kind(&wr)));
+        self.shape(st, "delete", format!("present{present}|{}", res_kind(&wr)));
+        st.count("oracle_diff_delete");
+        // documented deviation: deleting a missing key is NotFound (InMemory: Ok)
+        let expect: Result<(), EK> = if present { Ok(()) } else { Err(EK::NotFound) };
+        let got: Result<(), EK> = wr.as_ref().map(|_| ()).map_err(ek);
+        if got != expect || rr.is_err() {
+            self.viol(st, "diff/delete_result", json!({"key": KEYS[k], "present": present, "wrapper": res_kind(&wr), "reference": res_kind(&rr)}));
+            return;
+        }
+        self.ks[k].present = false;
+    }
+
+    async fn do_delete_stream(&mut self, st: &mut Stats, ks: &[usize]) {
+        let paths: Vec<Path> = ks.iter().map(|k| self.keys[*k].clone()).collect();
+        let mk = |p: &Vec<Path>| futures::stream::iter(p.clone().into_iter().map(Ok)).boxed();
+        let wres: Vec<Result<Path, Error>> = self.w.delete_stream(mk(&paths)).collect().await;
+        let rres: Vec<Result<Path, Error>> = self.r.delete_stream(mk(&paths)).collect().await;
+        let missing: Vec<usize> = ks.iter().copied().filter(|k| !self.ks[*k].present).collect();
+        st.count("oracle_diff_delete_stream");
+        st.add("delete_stream:missing_keys", missing.len() as u64);
+        self.shape(st, "delete_stream", format!("n{}|missing{}", ks.len(), missing.len()));
+        let mut ok_paths: Vec<String> = vec![];
+        let mut nf_paths: Vec<String> = vec![];
+        let mut bad = None;
+        for r in &wres {
+            match r {
+                Ok(p) => ok_paths.push(p.to_string()),
+                Err(Error::NotFound { path, .. }) => nf_paths.push(path.clone()),
+                Err(e) => bad = Some(e.to_string()),
+            }
+        }
+        ok_paths.sort();
+        nf_paths.sort();
+        let mut exp_ok: Vec<String> = ks.iter().filter(|k| self.ks[**k].present).map(|k| KEYS[*k].to_string()).collect();
+        let mut exp_nf: Vec<String> = missing.iter().map(|k| KEYS[*k].to_string()).collect();
+        exp_ok.sort();
+        exp_nf.sort();
+        if bad.is_some() || ok_paths != exp_ok || nf_paths != exp_nf || rres.iter().any(|r| r.is_err()) || rres.len() != ks.len() {
+            self.viol(st, "diff/delete_stream_result", json!({"deleted": ok_paths, "not_found": nf_paths, "other_error": bad,
+                "expected_deleted": exp_ok, "expected_not_found": exp_nf}));
+            return;
+        }
+        for k in ks {
+            self.ks[*k].present = false;
+        }
+    }
+}
+
+// ---------------------------------------------------------------------------------------------
+// reads, listings, swaps
+
+#[derive(Debug, PartialEq)]
+enum GetOut {
+    Ok { meta: NMeta, range: Range<u64>, body: Option<String>, attrs_ct: Option<String> },
+    Err(EK),
+    StreamErr(String),
+}
+
+impl World {
+    async fn norm_get(&self, side: Side, r: Result<object_store::GetResult, Error>, head: bool) -> (GetOut, Option<ObjectMeta>) {
+        match r {
+            Err(e) => (GetOut::Err(ek(&e)), None),
+            Ok(res) => {
+                let raw = res.meta.clone();
+                let meta = self.nmeta(side, &res.meta);
+                let range = res.range.clone();
+                let attrs_ct = res.attributes.get(&Attribute::ContentType).map(|v| v.to_string());
+                if head {
+                    // documented: a head request carries no body; only the metadata is compared
+                    return (GetOut::Ok { meta, range: 0..0, body: None, attrs_ct }, Some(raw));
+                }
+                match res.bytes().await {
+                    Ok(b) => (GetOut::Ok { meta, range, body: Some(digest(&b)), attrs_ct }, Some(raw)),
+                    Err(e) => (GetOut::StreamErr(e.to_string()), Some(raw)),
+                }
+            }
+        }
+    }
+
+    async fn do_get(&mut self, st: &mut Stats, k: usize, range: &Option<GetRange>, cond: &Cond, head: bool) {
+        let key = self.keys[k].clone();
+        let (s, oc) = self.cur(k).map(|c| (c.size, c.chunk)).unwrap_or((0, self.cfg.chunk()));
+        let wo = self.get_options(Side::W, k, range, cond, head);
+        let ro = self.get_options(Side::R, k, range, cond, head);
+        let wr = self.w.get_opts(&key, wo).await;
+        let rr = self.r.get_opts(&key, ro).await;
+        let (wn, wraw) = self.norm_get(Side::W, wr, head).await;
+        let (rn, _) = self.norm_get(Side::R, rr, head).await;
+        let mut range_invalid = false;
+        let kind: &'static str = if head { "head" } else { "get_opts" };
+        let mut rk = "none";
+        if let Some(r) = range {
+            let (label, resolved) = classify_range(r, s);
+            rk = label;
+            if self.ks[k].present {
+                st.count(&format!("get:range:{label}"));
+                match &resolved {
+                    Some(rr) => {
+                        if crosses_chunk(rr, oc) {
+                            st.count("get:range_crosses_chunk_boundary");
+                        }
+                        if rr.end > rr.start && (rr.start % oc == 0 || rr.end % oc == 0) {
+                            st.count("get:range_touches_chunk_boundary");
+                        }
+                    }
+                    None => range_invalid = true,
+                }
+            }
+        }
+        let out = match &wn {
+            GetOut::Ok { .. } => "ok",
+            GetOut::Err(e) => e.name(),
+            GetOut::StreamErr(_) => "stream_error",
+        };
+        st.count(&format!("{kind}:outcome:{out}"));
+        if cond.im.is_some() || cond.inm.is_some() {
+            st.count("get:etag_condition");
+        }
+        if cond.ims.is_some() || cond.ius.is_some() {
+            st.count("get:date_condition");
+        }
+        if (cond.im.is_some() && cond.ius.is_some()) || (cond.inm.is_some() && cond.ims.is_some()) {
+            st.count("get:date_condition_paired_with_etag_condition");
+        }
+        for t in [&cond.im, &cond.inm].into_iter().flatten() {
+            st.count(&format!("get:tagspec:{}", t.shape));
+        }
+        self.shape(st, kind, format!("{rk}|{}|{}|{out}", size_class(s, oc), cond.shape()));
+        st.count("oracle_diff_get");
+        let same = match (&wn, &rn) {
+            // invalid range: both sides must fail, the variant may differ
+            (GetOut::Err(_), GetOut::Err(_)) if range_invalid => true,
+            (a, b) => a == b,
+        };
+        if !same {
+            let sig = match (&wn, &rn) {
+                (GetOut::Ok { body: a, .. }, GetOut::Ok { body: b, .. }) if a != b => "diff/get_bytes",
+                (GetOut::Ok { range: a, .. }, GetOut::Ok { range: b, .. }) if a != b => "diff/get_range_field",
+                (GetOut::Ok { meta: a, .. }, GetOut::Ok { meta: b, .. }) if a != b => "diff/get_meta",
+                (GetOut::Ok { .. }, GetOut::Ok { .. }) => "diff/get_attributes",
+                (GetOut::StreamErr(_), _) => "diff/get_stream_error",
+                (GetOut::Err(_), GetOut::Err(_)) => "diff/get_error_variant",
+                (GetOut::Err(_), _) => "diff/get_failed_where_reference_succeeds",
+                _ => "diff/get_succeeded_where_reference_fails",
+            };
+            self.viol(st, sig, json!({"key": KEYS[k], "size": s, "object_chunk": oc, "range": format!("{range:?}"), "head": head,
+                "cond": format!("{cond:?}"), "wrapper": format!("{wn:?}"), "reference": format!("{rn:?}")}));
+            return;
+        }
+        if let (GetOut::Ok { .. }, Some(raw)) = (&wn, &wraw) {
+            self.check_triple(st, kind, k, raw);
+        }
+    }
+
+    async fn do_get_ranges(&mut self, st: &mut Stats, k: usize, ranges: &[Range<u64>]) {
+        let key = self.keys[k].clone();
+        let present = self.ks[k].present;
+        let (s, oc) = self.cur(k).map(|c| (c.size, c.chunk)).unwrap_or((0, self.cfg.chunk()));
+        let wr = self.w.get_ranges(&key, ranges).await;
+        let rr = self.r.get_ranges(&key, ranges).await;
+        let norm = |r: &Result<Vec<Bytes>, Error>| -> Result<Vec<String>, EK> {
+            r.as_ref().map(|v| v.iter().map(|b| digest(b)).collect()).map_err(ek)
+        };
+        let (wn, rn) = (norm(&wr), norm(&rr));
+        let invalid = ranges.iter().any(|r| r.start >= r.end || r.start >= s);
+        // documented deviation: get_ranges validates against the logical size and rejects a range
+        // ending past it (InMemory truncates such a range)
+        let end_past = ranges.iter().any(|r| r.end > s);
+        let overlapping = ranges.iter().enumerate().any(|(i, a)| ranges[..i].iter().any(|b| a.start < b.end && b.start < a.end));
+        st.count(&format!("get_ranges:{}", res_kind(&wr)));
+        if present {
+            if overlapping {
+                st.count("get_ranges:overlapping_or_repeated");
+            }
+            if invalid || end_past {
+                st.count("get_ranges:invalid_range");
+            }
+            if ranges.iter().any(|r| r.start < r.end && r.end <= s && crosses_chunk(r, oc)) {
+                st.count("get_ranges:crosses_chunk_boundary");
+            }
+        }
+        self.shape(st, "get_ranges", format!("n{}|present{present}|inv{invalid}|past{end_past}|ovl{overlapping}|{}", ranges.len(), res_kind(&wr)));
+        st.count("oracle_diff_get_ranges");
+        let same = if !present && ranges.is_empty() {
+            // not comparable: an empty range list issues no request in object_store's default
+            // implementation (Ok), InMemory looks the key up first (NotFound)
+            st.count("get_ranges:empty_list_on_missing_key_not_compared");
+            matches!(wn, Ok(ref v) if v.is_empty()) || wn == Err(EK::NotFound)
+        } else if present && (invalid || end_past) {
+            wn.is_err() && (rn.is_err() || (end_past && !invalid))
+        } else {
+            wn == rn
+        };
+        if !same {
+            let sig = if wn.is_ok() && rn.is_ok() { "diff/get_ranges_bytes" } else { "diff/get_ranges_result" };
+            self.viol(st, sig, json!({"key": KEYS[k], "size": s, "object_chunk": oc, "ranges": format!("{ranges:?}"),
+                "wrapper": format!("{wn:?}"), "reference": format!("{rn:?}")}));
+        }
+    }
+
+    async fn do_list(&mut self, st: &mut Stats, which: u8, prefix: usize, offset: usize) {
+        let p = if PREFIXES[prefix].is_empty() { None } else { Some(Path::from(PREFIXES[prefix])) };
+        let off = Path::from(OFFSETS[offset]);
+        st.count("oracle_diff_list");
+        match which {
+            0 | 1 => {
+                let (name, wr, rr): (&'static str, _, _) = if which == 0 {
+                    ("list", self.w.list(p.as_ref()).try_collect::<Vec<_>>().await, self.r.list(p.as_ref()).try_collect::<Vec<_>>().await)
+                } else {
+                    (
+                        "list_with_offset",
+                        self.w.list_with_offset(p.as_ref(), &off).try_collect::<Vec<_>>().await,
+                        self.r.list_with_offset(p.as_ref(), &off).try_collect::<Vec<_>>().await,
+                    )
+                };
+                match (wr, rr) {
+                    (Ok(a), Ok(b)) => {
+                        let order_same = a.iter().map(|m| &m.location).eq(b.iter().map(|m| &m.location));
+                        st.count(if order_same { "list:order_equals_reference" } else { "list:order_differs_from_reference" });
+                        let (na, nb) = (self.nmetas(Side::W, &a), self.nmetas(Side::R, &b));
+                        self.shape(st, name, format!("{}|{}|n{}", PREFIXES[prefix], if which == 1 { OFFSETS[offset] } else { "-" }, na.len()));
+                        if !na.is_empty() {
+                            st.count(&format!("{name}:non_empty"));
+                        }
+                        if na != nb {
+                            self.viol(st, &format!("diff/{name}"), json!({"prefix": PREFIXES[prefix], "offset": OFFSETS[offset],
+                                "wrapper": format!("{na:?}"), "reference": format!("{nb:?}")}));
+                        }
+                    }
+                    (a, b) => self.viol(st, &format!("diff/{name}_error"), json!({"wrapper": res_kind(&a), "reference": res_kind(&b)})),
+                }
+            }
+            _ => {
+                let wr = self.w.list_with_delimiter(p.as_ref()).await;
+                let rr = self.r.list_with_delimiter(p.as_ref()).await;
+                match (wr, rr) {
+                    (Ok(a), Ok(b)) => {
+                        let (na, nb) = (self.nmetas(Side::W, &a.objects), self.nmetas(Side::R, &b.objects));
+                        let mut ca: Vec<String> = a.common_prefixes.iter().map(|p| p.to_string()).collect();
+                        let mut cb: Vec<String> = b.common_prefixes.iter().map(|p| p.to_string()).collect();
+                        ca.sort();
+                        cb.sort();
+                        self.shape(st, "list_with_delimiter", format!("{}|n{}|p{}", PREFIXES[prefix], na.len(), ca.len()));
+                        if !ca.is_empty() {
+                            st.count("list_with_delimiter:with_common_prefixes");
+                        }
+                        if na != nb || ca != cb {
+                            self.viol(st, "diff/list_with_delimiter", json!({"prefix": PREFIXES[prefix],
+                                "wrapper": format!("{na:?} + {ca:?}"), "reference": format!("{nb:?} + {cb:?}")}));
+                        }
+                    }
+                    (a, b) => self.viol(st, "diff/list_with_delimiter_error", json!({"wrapper": res_kind(&a), "reference": res_kind(&b)})),
+                }
+            }
+        }
+    }
+
+    async fn do_cold_swap(&mut self, st: &mut Stats, rng: &mut Rng, chunk: Option<u64>, probe: bool) {
+        if !self.uploads.is_empty() {
+            return;
+        }
+        let old_cfg = self.cfg;
+        if let (Cfg::Enc(_), Some(c)) = (self.cfg, chunk) {
+            self.cfg = Cfg::Enc(c);
+            st.count("cold_swaps_with_changed_chunk_size");
+        }
+        let fresh = build(self.cfg, &self.inner);
+        let old = std::mem::replace(&mut self.w, fresh);
+        self.lagging = Some((old, old_cfg));
+        st.count("cold_swaps");
+        self.shape(st, "cold_swap", format!("{:?}|probe{probe}", chunk.is_some()));
+        if probe {
+            // first access of a key through the cold instance is a conditional update that must fail
+            let p: Vec<usize> = self.present_set().into_iter().collect();
+            if !p.is_empty() {
+                let k = *rng.pick(&p);
+                let tok = match rng.below(3) {
+                    0 => self.tok_stale(rng, k),
+                    1 => self.tok_foreign(rng, k),
+                    _ => Tok::Bogus,
+                };
+                let mode = ModeSpec::Update { tok: Some(tok), version: false, label: "stale" };
+                let pl = gen_payload(rng, self.cfg.chunk(), true);
+                self.history.push(format!("  probe on cold instance: Put k={k} {mode:?} {pl:?}"));
+                st.count("cold_instance_first_access_is_bad_update");
+                self.do_put(st, k, &mode, &pl, false, false).await;
+                if self.failed {
+                    return;
+                }
+            }
+        }
+        // cold answers must equal what the warm instance committed (ledger): full audit incl. bytes
+        self.audit(st, true, "after cold swap").await;
+    }
+
+    async fn do_aba(&mut self, st: &mut Stats, k: usize, a: &Payload, b: &Payload) {
+        self.shape(st, "aba", format!("{}|{}", size_class(a.size as u64, self.cfg.chunk()), size_class(b.size as u64, self.cfg.chunk())));
+        if !self.do_put(st, k, &ModeSpec::Overwrite, a, false, false).await || self.failed {
+            return;
+        }
+        let t1 = self.tok_cur(k);
+        if !self.do_put(st, k, &ModeSpec::Overwrite, b, false, false).await || self.failed {
+            return;
+        }
+        let t2 = self.tok_cur(k);
+        let m = ModeSpec::Update { tok: Some(t2), version: false, label: "current" };
+        if !self.do_put(st, k, &m, a, false, false).await || self.failed {
+            return;
+        }
+        // same bytes as commit t1 again: the old token must not be accepted
+        let m = ModeSpec::Update { tok: Some(t1.clone()), version: false, label: "stale" };
+        self.do_put(st, k, &m, b, false, false).await;
+        if self.failed {
+            return;
+        }
+        let cond = Cond { im: Some(TagSpec { parts: vec![Part::T(t1)], sep: ",", pad: false, shape: "stale" }), ..Default::default() };
+        self.do_get(st, k, &None, &cond, false).await;
+        st.count("aba_sequences");
+    }
+
+    async fn apply(&mut self, st: &mut Stats, rng: &mut Rng, op: &Op) {
+        match op {
+            Op::Put { k, mode, pl, attrs, via_lagging } => {
+                self.do_put(st, *k, mode, pl, *attrs, *via_lagging).await;
+            }
+            Op::Multipart { k, parts, end, defer, attrs } => self.do_multipart(st, *k, parts, *end, *defer, *attrs).await,
+            Op::FinishUpload { idx } => {
+                if *idx < self.uploads.len() {
+                    self.finish_upload(st, *idx).await
+                }
+            }
+            Op::Get { k, range, cond, head } => self.do_get(st, *k, range, cond, *head).await,
+            Op::GetRanges { k, ranges } => self.do_get_ranges(st, *k, ranges).await,
+            Op::List { prefix } => self.do_list(st, 0, *prefix, 0).await,
+            Op::ListOffset { prefix, offset } => self.do_list(st, 1, *prefix, *offset).await,
+            Op::ListDelim { prefix } => self.do_list(st, 2, *prefix, 0).await,
+            Op::Delete { k } => self.do_delete(st, *k).await,
+            Op::DeleteStream { ks } => self.do_delete_stream(st, ks).await,
+            Op::Copy { from, to, create } => self.do_copy(st, *from, *to, *create, false).await,
+            Op::Rename { from, to, create } => self.do_copy(st, *from, *to, *create, true).await,
+            Op::Aba { k, a, b } => self.do_aba(st, *k, a, b).await,
+            Op::ColdSwap { chunk, probe } => self.do_cold_swap(st, rng, *chunk, *probe).await,
+        }
+    }
+
+    async fn run(&mut self, rng: &mut Rng, st: &mut Stats, steps: usize) {
+        for step in 0..steps {
+            let op = self.gen_op(rng, step);
+            self.history.push(format!("{op:?}"));
+            self.apply(st, rng, &op).await;
+            if self.failed {
+                return;
+            }
+            self.audit(st, false, "after call").await;
+            if self.failed {
+                return;
+            }
+            st.eval();
+        }
+        // leftovers: unfinished uploads are dropped, then everything is read back on both sides
+        self.uploads.clear();
+        self.history.push("final read-back".into());
+        self.audit(st, true, "end of sequence").await;
+        if self.failed {
+            return;
+        }
+        for k in 0..KEYS.len() {
+            self.do_get(st, k, &None, &Cond::default(), false).await;
+            if self.failed {
+                return;
+            }
+        }
+        self.do_list(st, 0, 0, 0).await;
+    }
+}
+
+fn seq_case(case: u64, rng: &mut Rng, st: &mut Stats, steps: usize) {
+    let cfg = match rng.weighted(&[28, 14, 22, 22, 14]) {
+        0 => Cfg::Meta,
+        1 => Cfg::Enc(1),
+        2 => Cfg::Enc(7),
+        3 => Cfg::Enc(16),
+        _ => Cfg::Enc(65536),
+    };
+    st.count(&format!("cfg:{}", cfg.tag()));
+    let mut w = World::new(cfg);
+    if let Err(msg) = guard_target_panics(|| vcore::run::block_on(w.run(rng, st, steps))) {
+        w.viol(st, "panic_in_wrapper_call", json!({"panic": msg}));
+    }
+    if !w.failed && w.kinds.len() >= 8 && w.shapes.iter().any(|s| s.starts_with("put_opts|Update")) {
+        st.distinct(vcore::fnv_str(&format!("{}|{}", cfg.tag(), w.shapes.join(";"))));
+    }
+    st.sample(|| json!({"monitor": "differential", "case": case, "cfg": cfg.tag(),
+        "calls": w.history.iter().take(14).collect::<Vec<_>>()}));
+}
+
+// ---------------------------------------------------------------------------------------------
+// concurrent callers on one key: controlled interleavings + linearizability
+
+#[derive(Clone, Copy, Debug, PartialEq, Eq, Hash)]
+enum COp {
+    Put,
+    Create,
+    /// Update holding the token of the initial commit
+    UpdT0,
+    /// copy K2 -> K (overwrite)
+    CopyIn,
+    CopyInCreate,
+    Delete,
+    Get,
+    Head,
+    /// multipart upload of two parts + complete
+    Mp,
+}
+
+struct Scenario {
+    name: &'static str,
+    ops: &'static [COp],
+    init_present: bool,
+}
+
+const SCENARIOS: &[Scenario] = &[
+    Scenario { name: "put/put", ops: &[COp::Put, COp::Put], init_present: true },
+    Scenario { name: "put/put(absent)", ops: &[COp::Put, COp::Put], init_present: false },
+    Scenario { name: "put/update_old_token", ops: &[COp::Put, COp::UpdT0], init_present: true },
+    Scenario { name: "update/update_same_token", ops: &[COp::UpdT0, COp::UpdT0], init_present: true },
+    Scenario { name: "copy/put", ops: &[COp::CopyIn, COp::Put], init_present: true },
+    Scenario { name: "delete/put", ops: &[COp::Delete, COp::Put], init_present: true },
+    Scenario { name: "get_during_put", ops: &[COp::Get, COp::Put], init_present: true },
+    Scenario { name: "head_during_put", ops: &[COp::Head, COp::Put], init_present: true },
+    Scenario { name: "get_during_update", ops: &[COp::Get, COp::UpdT0], init_present: true },
+    Scenario { name: "create/create", ops: &[COp::Create, COp::Create], init_present: false },
+    Scenario { name: "create/copy_create", ops: &[COp::Create, COp::CopyInCreate], init_present: false },
+    Scenario { name: "delete/update", ops: &[COp::Delete, COp::UpdT0], init_present: true },
+    Scenario { name: "multipart/put", ops: &[COp::Mp, COp::Put], init_present: true },
+    Scenario { name: "multipart/update", ops: &[COp::Mp, COp::UpdT0], init_present: true },
+    Scenario { name: "get/delete", ops: &[COp::Get, COp::Delete], init_present: true },
+    Scenario { name: "copy/update", ops: &[COp::CopyIn, COp::UpdT0], init_present: true },
+    Scenario { name: "update/update/get", ops: &[COp::UpdT0, COp::UpdT0, COp::Get], init_present: true },
+    Scenario { name: "update/update/update", ops: &[COp::UpdT0, COp::UpdT0, COp::UpdT0], init_present: true },
+    Scenario { name: "get/put/put", ops: &[COp::Get, COp::Put, COp::Put], init_present: true },
+    Scenario { name: "delete/put/get", ops: &[COp::Delete, COp::Put, COp::Get], init_present: true },
+    Scenario { name: "copy/update/put", ops: &[COp::CopyIn, COp::UpdT0, COp::Put], init_present: true },
+    Scenario { name: "create/create/head", ops: &[COp::Create, COp::Create, COp::Head], init_present: false },
+];
+
+const CONC_CFGS: [Cfg; 3] = [Cfg::Meta, Cfg::Enc(4), Cfg::Enc(16)];
+const CK: &str = "d/e";
+const CK2: &str = "d/f";
+
+#[derive(Clone, Debug, PartialEq)]
+enum Val {
+    Init,
+    K2,
+    Op(usize),
+}
+
+fn cval(v: &Val) -> Bytes {
+    match v {
+        Val::Init => pattern(9, 6),
+        Val::K2 => pattern(8, 7),
+        Val::Op(i) => pattern(*i as u8, [5, 9, 13][*i % 3]),
+    }
+}
+
+#[derive(Clone, Debug)]
+#[allow(dead_code)] // the error text is only shown in violation details
+enum CRes {
+    Wrote(Option<String>),
+    Done,
+    Read { bytes: Vec<u8>, size: u64, tok: Option<String> },
+    Meta { size: u64, tok: Option<String> },
+    Err(EK, String),
+}
+
+async fn run_cop(w: Arc<dyn ObjectStore>, op: COp, i: usize, t0: Option<String>) -> CRes {
+    let k = Path::from(CK);
+    let e = |e: Error| CRes::Err(ek(&e), e.to_string());
+    let put = |mode: PutMode| {
+        let w = w.clone();
+        let k = k.clone();
+        async move {
+            let opts = PutOptions { mode, ..Default::default() };
+            w.put_opts(&k, PutPayload::from_bytes(cval(&Val::Op(i))), opts).await
+        }
+    };
+    match op {
+        COp::Put => put(PutMode::Overwrite).await.map(|r| CRes::Wrote(r.e_tag)).unwrap_or_else(e),
+        COp::Create => put(PutMode::Create).await.map(|r| CRes::Wrote(r.e_tag)).unwrap_or_else(e),
+        COp::UpdT0 => {
+            let v = UpdateVersion { e_tag: Some(t0.unwrap_or_else(|| "nope".into())), version: None };
+            put(PutMode::Update(v)).await.map(|r| CRes::Wrote(r.e_tag)).unwrap_or_else(e)
+        }
+        COp::CopyIn => w.copy(&Path::from(CK2), &k).await.map(|_| CRes::Done).unwrap_or_else(e),
+        COp::CopyInCreate => w.copy_if_not_exists(&Path::from(CK2), &k).await.map(|_| CRes::Done).unwrap_or_else(e),
+        COp::Delete => w.delete(&k).await.map(|_| CRes::Done).unwrap_or_else(e),
+        COp::Get => match w.get(&k).await {
+            Err(x) => e(x),
+            Ok(res) => {
+                let (size, tok) = (res.meta.size, res.meta.e_tag.clone());
+                match res.bytes().await {
+                    Ok(b) => CRes::Read { bytes: b.to_vec(), size, tok },
+                    Err(x) => CRes::Err(EK::Other, format!("stream: {x}")),
+                }
+            }
+        },
+        COp::Head => w.head(&k).await.map(|m| CRes::Meta { size: m.size, tok: m.e_tag }).unwrap_or_else(e),
+        COp::Mp => {
+            let mut up = match w.put_multipart(&k).await {
+                Ok(u) => u,
+                Err(x) => return e(x),
+            };
+            let data = cval(&Val::Op(i));
+            let cut = data.len() / 2;
+            for part in [data.slice(..cut), data.slice(cut..)] {
+                if let Err(x) = up.put_part(PutPayload::from_bytes(part)).await {
+                    return e(x);
+                }
+            }
+            up.complete().await.map(|r| CRes::Wrote(r.e_tag)).unwrap_or_else(e)
+        }
+    }
+}
+
+/// model state of the key: which write produced the current value, and its token when known
+type MS = Option<(Val, Option<String>)>;
+
+fn read_matches(s: &MS, bytes: Option<&[u8]>, size: u64, tok: &Option<String>) -> bool {
+    match s {
+        None => false,
+        Some((v, t)) => {
+            let exp = cval(v);
+            bytes.map(|b| b == &exp[..]).unwrap_or(true)
+                && size == exp.len() as u64
+                && (t.is_none() || t == tok)
+        }
+    }
+}
+
+/// sequential specification: next state when `op` with the observed result is legal in `s`
+fn lin_apply(s: &MS, op: COp, i: usize, res: &CRes, t0: &Option<String>) -> Option<MS> {
+    let wrote = |res: &CRes| match res {
+        CRes::Wrote(t) => Some(Some((Val::Op(i), t.clone()))),
+        _ => None,
+    };
+    let failed = |res: &CRes, k: EK| matches!(res, CRes::Err(e, _) if *e == k);
+    match op {
+        COp::Put | COp::Mp => wrote(res),
+        COp::Create => {
+            if s.is_none() { wrote(res) } else { failed(res, EK::AlreadyExists).then(|| s.clone()) }
+        }
+        COp::UpdT0 => {
+            let holds = matches!(s, Some((Val::Init, _))) && t0.is_some();
+            if holds { wrote(res) } else { failed(res, EK::Precondition).then(|| s.clone()) }
+        }
+        COp::CopyIn => matches!(res, CRes::Done).then(|| Some((Val::K2, None))),
+        COp::CopyInCreate => {
+            if s.is_none() {
+                matches!(res, CRes::Done).then(|| Some((Val::K2, None)))
+            } else {
+                failed(res, EK::AlreadyExists).then(|| s.clone())
+            }
+        }
+        COp::Delete => {
+            if s.is_some() { matches!(res, CRes::Done).then_some(None) } else { failed(res, EK::NotFound).then_some(None) }
+        }
+        COp::Get => match res {
+            CRes::Read { bytes, size, tok } => read_matches(s, Some(bytes), *size, tok).then(|| s.clone()),
+            r => (s.is_none() && failed(r, EK::NotFound)).then(|| s.clone()),
+        },
+        COp::Head => match res {
+            CRes::Meta { size, tok } => read_matches(s, None, *size, tok).then(|| s.clone()),
+            r => (s.is_none() && failed(r, EK::NotFound)).then(|| s.clone()),
+        },
+    }
+}
+
+fn final_matches(s: &MS, fin: &CRes) -> bool {
+    match fin {
+        CRes::Read { bytes, size, tok } => read_matches(s, Some(bytes), *size, tok),
+        CRes::Err(EK::NotFound, _) => s.is_none(),
+        _ => false,
+    }
+}
+
+/// Is there an order of the (mutually concurrent) calls that explains every result and the
+/// final state? `skip` marks calls that are left out of the explanation.
+fn linearizable(init: &MS, ops: &[COp], res: &[CRes], skip: &[bool], t0: &Option<String>, fin: &CRes) -> bool {
+    fn rec(s: &MS, used: u32, ops: &[COp], res: &[CRes], skip: &[bool], t0: &Option<String>, fin: &CRes) -> bool {
+        if (0..ops.len()).all(|i| used & (1 << i) != 0 || skip[i]) {
+            return final_matches(s, fin);
+        }
+        for i in 0..ops.len() {
+            if used & (1 << i) != 0 || skip[i] {
+                continue;
+            }
+            if let Some(n) = lin_apply(s, ops[i], i, &res[i], t0) {
+                if rec(&n, used | (1 << i), ops, res, skip, t0, fin) {
+                    return true;
+                }
+            }
+        }
+        false
+    }
+    rec(init, 0, ops, res, skip, t0, fin)
+}
+
+/// Thin layer between the wrapper and the gated RecStore: yields once more AFTER each backend
+/// call returned, so that "the answer of a backend read is in hand but not yet acted upon" is a
+/// scheduling point too (RecStore's gate only yields before a call).
+#[derive(Clone, Debug)]
+struct PostYield {
+    inner: RecStore,
+    on: bool,
+}
+
+impl std::fmt::Display for PostYield {
+    fn fmt(&self, f: &mut std::fmt::Formatter<'_>) -> std::fmt::Result {
+        write!(f, "PostYield({})", self.inner)
+    }
+}
+
+impl PostYield {
+    async fn after(&self) {
+        if self.on {
+            vcore::recstore::yield_once().await;
+        }
+    }
+}
+
+#[async_trait::async_trait]
+impl ObjectStore for PostYield {
+    async fn put_opts(&self, location: &Path, payload: PutPayload, opts: PutOptions) -> object_store::Result<object_store::PutResult> {
+        let r = self.inner.put_opts(location, payload, opts).await;
+        self.after().await;
+        r
+    }
+    async fn put_multipart_opts(&self, location: &Path, opts: PutMultipartOptions) -> object_store::Result<Box<dyn MultipartUpload>> {
+        self.inner.put_multipart_opts(location, opts).await
+    }
+    async fn get_opts(&self, location: &Path, options: GetOptions) -> object_store::Result<object_store::GetResult> {
+        let r = self.inner.get_opts(location, options).await;
+        self.after().await;
+        r
+    }
+    async fn get_ranges(&self, location: &Path, ranges: &[Range<u64>]) -> object_store::Result<Vec<Bytes>> {
+        let r = self.inner.get_ranges(location, ranges).await;
+        self.after().await;
+        r
+    }
+    fn delete_stream(
+        &self,
+        locations: futures::stream::BoxStream<'static, object_store::Result<Path>>,
+    ) -> futures::stream::BoxStream<'static, object_store::Result<Path>> {
+        self.inner.delete_stream(locations)
+    }
+    fn list(&self, prefix: Option<&Path>) -> futures::stream::BoxStream<'static, object_store::Result<ObjectMeta>> {
+        self.inner.list(prefix)
+    }
+    fn list_with_offset(&self, prefix: Option<&Path>, offset: &Path) -> futures::stream::BoxStream<'static, object_store::Result<ObjectMeta>> {
+        self.inner.list_with_offset(prefix, offset)
+    }
+    async fn list_with_delimiter(&self, prefix: Option<&Path>) -> object_store::Result<object_store::ListResult> {
+        self.inner.list_with_delimiter(prefix).await
+    }
+    async fn copy_opts(&self, from: &Path, to: &Path, options: CopyOptions) -> object_store::Result<()> {
+        let r = self.inner.copy_opts(from, to, options).await;
+        self.after().await;
+        r
+    }
+    async fn rename_opts(&self, from: &Path, to: &Path, options: RenameOptions) -> object_store::Result<()> {
+        let r = self.inner.rename_opts(from, to, options).await;
+        self.after().await;
+        r
+    }
+}
+
+struct SchedOut {
+    results: Vec<CRes>,
+    trace: Vec<usize>,
+    stuck: Option<String>,
+    t0: Option<String>,
+    fin_get: CRes,
+    fin_head: CRes,
+    fin_listed: Option<(u64, Option<String>)>,
+    list_err: Option<String>,
+}
+
+fn run_schedule(ops: &[COp], init_present: bool, cfg: Cfg, warm: bool, post: bool, chooser: &mut dyn Chooser) -> SchedOut {
+    vcore::run::block_on(async {
+        let rec = RecStore::new();
+        rec.set_record_reads(false);
+        let below = PostYield { inner: rec.clone(), on: post };
+        let mut w = build(cfg, &below);
+        let k = Path::from(CK);
+        w.put(&Path::from(CK2), PutPayload::from_bytes(cval(&Val::K2))).await.expect("setup put k2");
+        let t0 = if init_present {
+            w.put(&k, PutPayload::from_bytes(cval(&Val::Init))).await.expect("setup put k").e_tag
+        } else {
+            None
+        };
+        if !warm {
+            w = build(cfg, &below); // cold metadata cache
+        }
+        rec.set_gate(true);
+        let mut ex: ManualExec<'static, CRes> = ManualExec::new();
+        for (i, op) in ops.iter().enumerate() {
+            ex.spawn(run_cop(w.clone(), *op, i, t0.clone()));
+        }
+        let r = ex.run(chooser, 5000, |_, _, _| {});
+        rec.set_gate(false);
+        let stuck = r.err().map(|s| format!("{s:?}"));
+        let results: Vec<CRes> = (0..ops.len())
+            .map(|i| ex.take_result(i).unwrap_or(CRes::Err(EK::Other, "did not finish".into())))
+            .collect();
+        let trace = ex.trace.clone();
+        drop(ex);
+        // listing first: it answers from the metadata cache alone, whereas a get would repair a
+        // lagging cache entry on the way (payload gone -> re-resolve)
+        let (fin_listed, list_err) = match w.list(None).try_collect::<Vec<_>>().await {
+            Ok(ms) => (ms.iter().find(|m| m.location == k).map(|m| (m.size, m.e_tag.clone())), None),
+            Err(e) => (None, Some(e.to_string())),
+        };
+        let fin_head = run_cop(w.clone(), COp::Head, 0, None).await;
+        let fin_get = run_cop(w.clone(), COp::Get, 0, None).await;
+        SchedOut { results, trace, stuck, t0, fin_get, fin_head, fin_listed, list_err }
+    })
+}
+
+struct CCase<'a> {
+    name: &'a str,
+    ops: &'a [COp],
+    init_present: bool,
+    cfg: Cfg,
+    warm: bool,
+    /// also yield after every backend call
+    post: bool,
+}
+
+/// Returns true when the schedule produced a violation that should stop the exploration of
+/// this case.
+fn judge_schedule(out: &SchedOut, cc: &CCase, mode: &str, st: &mut Stats) -> bool {
+    let CCase { name, ops, init_present, cfg, warm, post } = *cc;
+    let ctx = || {
+        json!({"scenario": name, "cfg": cfg.tag(), "warm_cache": warm, "yield_after_backend_calls": post, "mode": mode, "initially_present": init_present,
+            "calls": ops.iter().map(|o| format!("{o:?}")).collect::<Vec<_>>(),
+            "results": out.results.iter().map(|r| format!("{r:?}")).collect::<Vec<_>>(),
+            "poll_order": out.trace, "final_get": format!("{:?}", out.fin_get),
+            "final_head": format!("{:?}", out.fin_head), "final_list_entry": format!("{:?}", out.fin_listed)})
+    };
+    let sig = |s: &str| format!("C07/{}/concurrent/{s}", cfg.family());
+    if let Some(s) = &out.stuck {
+        st.inconclusive(format!("C07 concurrent schedule did not run to completion ({s}) in scenario {name}"));
+        return true;
+    }
+    if mode != "S-mt" {
+        st.count("interleavings_explored");
+        st.count(&format!("conc:{name}"));
+    }
+    // final agreement of get / head / list
+    st.count("oracle_conc_final_agreement");
+    let g = match &out.fin_get {
+        CRes::Read { size, tok, bytes } => {
+            if *size != bytes.len() as u64 {
+                st.violation(sig("final_get_size_vs_bytes"), ctx());
+            }
+            Some((*size, tok.clone()))
+        }
+        CRes::Err(EK::NotFound, _) => None,
+        _ => {
+            st.violation(sig("final_get_failed"), ctx());
+            return true;
+        }
+    };
+    let h = match &out.fin_head {
+        CRes::Meta { size, tok } => Some((*size, tok.clone())),
+        _ => None,
+    };
+    if out.list_err.is_some() || g != h || g != out.fin_listed {
+        st.violation(sig("final_get_head_list_disagree"), ctx());
+        return true;
+    }
+    let init: MS = if init_present { Some((Val::Init, out.t0.clone())) } else { None };
+    let none = vec![false; ops.len()];
+    st.count("oracle_conc_linearizability");
+    for (o, r) in ops.iter().zip(&out.results) {
+        if matches!(o, COp::Get | COp::Head) {
+            st.count("conc_reads_checked");
+            if matches!(r, CRes::Read { .. } | CRes::Meta { .. }) {
+                st.count("conc_reads_returned_a_commit");
+            }
+        }
+    }
+    if !linearizable(&init, ops, &out.results, &none, &out.t0, &out.fin_get) {
+        // a read that reports NotFound although the key existed throughout gets its own signature
+        let never_absent = init_present && !ops.contains(&COp::Delete);
+        let skip: Vec<bool> = ops
+            .iter()
+            .zip(&out.results)
+            .map(|(o, r)| matches!(o, COp::Get | COp::Head) && matches!(r, CRes::Err(EK::NotFound, _)))
+            .collect();
+        if never_absent && skip.iter().any(|s| *s) && linearizable(&init, ops, &out.results, &skip, &out.t0, &out.fin_get) {
+            // candidate defect (see report): recorded once per store family and run so that the
+            // exploration of the other interleavings goes on; every occurrence is counted
+            st.count("conc_read_not_found_while_key_is_overwritten");
+            static SEEN: [std::sync::atomic::AtomicBool; 2] =
+                [std::sync::atomic::AtomicBool::new(false), std::sync::atomic::AtomicBool::new(false)];
+            let slot = &SEEN[(cfg == Cfg::Meta) as usize];
+            if !slot.swap(true, std::sync::atomic::Ordering::SeqCst) {
+                st.violation(sig("read_not_found_while_key_is_overwritten"), ctx());
+            }
+            return false;
+        }
+        st.violation(sig("not_linearizable"), ctx());
+        return true;
+    }
+    let n_upd = ops.iter().filter(|o| **o == COp::UpdT0).count();
+    if n_upd >= 2 && init_present {
+        let winners = ops.iter().zip(&out.results).filter(|(o, r)| **o == COp::UpdT0 && matches!(r, CRes::Wrote(_))).count();
+        let other_writers = ops.iter().any(|o| !matches!(o, COp::UpdT0 | COp::Get | COp::Head));
+        st.count("races_updates_same_token");
+        if winners == 1 {
+            st.count("races_updates_same_token_exactly_one_winner");
+        } else if winners > 1 || !other_writers {
+            st.violation(sig("updates_same_token_winners"), ctx());
+            return true;
+        }
+    }
+    false
+}
+
+fn conc_panic(cc: &CCase, msg: &str, choices: &[usize], st: &mut Stats) {
+    st.violation(
+        format!("C07/{}/concurrent/panic_in_wrapper_call", cc.cfg.family()),
+        json!({"panic": msg, "scenario": cc.name, "calls": cc.ops.iter().map(|o| format!("{o:?}")).collect::<Vec<_>>(),
+            "cfg": cc.cfg.tag(), "warm_cache": cc.warm, "yield_after_backend_calls": cc.post, "dfs_choices": choices}),
+    );
+}
+
+fn explore(cc: &CCase, case: u64, rng: &mut Rng, st: &mut Stats, dfs_budget: u64, rand_budget: u64) {
+    let CCase { name, ops, init_present, cfg, warm, post } = *cc;
+    let salt = case.wrapping_mul(0x9e3779b97f4a7c15);
+    let mut dfs = DfsChooser::new();
+    let mut runs = 0u64;
+    let mut exhausted = false;
+    let mut stop = false;
+    loop {
+        dfs.begin_run();
+        let out = match guard_target_panics(|| run_schedule(ops, init_present, cfg, warm, post, &mut dfs)) {
+            Ok(o) => o,
+            Err(msg) => {
+                conc_panic(cc, &msg, &dfs.current(), st);
+                break;
+            }
+        };
+        runs += 1;
+        st.eval();
+        st.set("distinct_interleavings", vcore::hash_debug(&out.trace) ^ salt);
+        st.max("max_schedule_len", out.trace.len() as u64);
+        if judge_schedule(&out, cc, "S-enum/DFS", st) {
+            stop = true;
+            break;
+        }
+        if !dfs.next_run() {
+            exhausted = true;
+            break;
+        }
+        if runs >= dfs_budget {
+            break;
+        }
+    }
+    st.count(if exhausted { "schedule_spaces_exhausted" } else { "schedule_spaces_truncated" });
+    if !exhausted && !stop {
+        let mut rc = RandChooser(rng.fork());
+        for _ in 0..rand_budget {
+            let out = match guard_target_panics(|| run_schedule(ops, init_present, cfg, warm, post, &mut rc)) {
+                Ok(o) => o,
+                Err(msg) => {
+                    conc_panic(cc, &msg, &[], st);
+                    break;
+                }
+            };
+            st.eval();
+            st.count("random_schedules");
+            st.set("distinct_interleavings", vcore::hash_debug(&out.trace) ^ salt);
+            if judge_schedule(&out, cc, "S-rand", st) {
+                break;
+            }
+        }
+    }
+    st.distinct(vcore::fnv_str(&format!("{name}|{ops:?}|{init_present}|{}|{warm}|{post}", cfg.tag())));
+    st.sample(|| json!({"monitor": "concurrent_callers", "scenario": name, "cfg": cfg.tag(), "warm_cache": warm, "yield_after_backend_calls": post,
+        "schedules": runs, "exhaustive": exhausted}));
+}
+
+
+/// S-mt: the same small call sets on a multi-thread runtime (real parallelism, no gate), judged
+/// by the same linearizability check.
+fn run_mt(rt: &tokio::runtime::Runtime, ops: &[COp], init_present: bool, cfg: Cfg, warm: bool) -> SchedOut {
+    rt.block_on(async {
+        let rec = RecStore::new();
+        rec.set_record_reads(false);
+        let mut w = build(cfg, &rec);
+        let k = Path::from(CK);
+        w.put(&Path::from(CK2), PutPayload::from_bytes(cval(&Val::K2))).await.expect("setup put k2");
+        let t0 = if init_present {
+            w.put(&k, PutPayload::from_bytes(cval(&Val::Init))).await.expect("setup put k").e_tag
+        } else {
+            None
+        };
+        if !warm {
+            w = build(cfg, &rec);
+        }
+        let barrier = Arc::new(tokio::sync::Barrier::new(ops.len()));
+        let handles: Vec<_> = ops
+            .iter()
+            .enumerate()
+            .map(|(i, op)| {
+                let (w, t0, b, op) = (w.clone(), t0.clone(), barrier.clone(), *op);
+                tokio::spawn(async move {
+                    b.wait().await;
+                    run_cop(w, op, i, t0).await
+                })
+            })
+            .collect();
+        let mut results = vec![];
+        let mut stuck = None;
+        for h in handles {
+            match h.await {
+                Ok(r) => results.push(r),
+                Err(e) => {
+                    stuck = Some(format!("task join error: {e}"));
+                    results.push(CRes::Err(EK::Other, "join error".into()));
+                }
+            }
+        }
+        let (fin_listed, list_err) = match w.list(None).try_collect::<Vec<_>>().await {
+            Ok(ms) => (ms.iter().find(|m| m.location == k).map(|m| (m.size, m.e_tag.clone())), None),
+            Err(e) => (None, Some(e.to_string())),
+        };
+        let fin_head = run_cop(w.clone(), COp::Head, 0, None).await;
+        let fin_get = run_cop(w.clone(), COp::Get, 0, None).await;
+        SchedOut { results, trace: vec![], stuck, t0, fin_get, fin_head, fin_listed, list_err }
+    })
+}
+
+fn mt_case(case: u64, rng: &mut Rng, st: &mut Stats, runs: u64) {
+    const ALL: [COp; 9] = [COp::Put, COp::Create, COp::UpdT0, COp::CopyIn, COp::CopyInCreate, COp::Delete, COp::Get, COp::Head, COp::Mp];
+    let rt = tokio::runtime::Builder::new_multi_thread().worker_threads(3).build().expect("multi-thread runtime");
+    let n = SCENARIOS.len() as u64;
+    let (name, ops, init_present): (&str, Vec<COp>, bool) = if case % 2 == 0 {
+        let sc = &SCENARIOS[((case / 2) % n) as usize];
+        (sc.name, sc.ops.to_vec(), sc.init_present)
+    } else {
+        ("random", (0..3).map(|_| *rng.pick(&ALL)).collect(), rng.chance(3, 4))
+    };
+    let cc = CCase { name, ops: &ops, init_present, cfg: *rng.pick(&CONC_CFGS), warm: rng.bool(), post: false };
+    for _ in 0..runs {
+        let out = match guard_target_panics(|| run_mt(&rt, cc.ops, cc.init_present, cc.cfg, cc.warm)) {
+            Ok(o) => o,
+            Err(msg) => {
+                conc_panic(&cc, &msg, &[], st);
+                break;
+            }
+        };
+        st.eval();
+        st.count("mt_runs");
+        if judge_schedule(&out, &cc, "S-mt", st) {
+            break;
+        }
+    }
+    st.distinct(vcore::fnv_str(&format!("mt|{name}|{ops:?}|{init_present}|{}|{}", cc.cfg.tag(), cc.warm)));
+}
+
+fn conc_case(case: u64, rng: &mut Rng, st: &mut Stats, dfs_budget: u64, rand_budget: u64) {
+    let n = SCENARIOS.len() as u64;
+    let sc = &SCENARIOS[(case % n) as usize];
+    let cfg = CONC_CFGS[((case / n) % 3) as usize];
+    let warm = (case / (3 * n)) % 2 == 0;
+    let post = (case / (6 * n)) % 2 == 1;
+    let cc = CCase { name: sc.name, ops: sc.ops, init_present: sc.init_present, cfg, warm, post };
+    explore(&cc, case, rng, st, dfs_budget, rand_budget);
+}
+
+fn conc_rand_case(case: u64, rng: &mut Rng, st: &mut Stats, dfs_budget: u64, rand_budget: u64) {
+    const ALL: [COp; 9] = [COp::Put, COp::Create, COp::UpdT0, COp::CopyIn, COp::CopyInCreate, COp::Delete, COp::Get, COp::Head, COp::Mp];
+    let n = 2 + rng.usize(2);
+    let ops: Vec<COp> = (0..n).map(|_| *rng.pick(&ALL)).collect();
+    let init_present = rng.chance(3, 4);
+    let cfg = *rng.pick(&CONC_CFGS);
+    let warm = rng.bool();
+    let cc = CCase { name: "random", ops: &ops, init_present, cfg, warm, post: rng.bool() };
+    explore(&cc, case ^ 0x5555, rng, st, dfs_budget, rand_budget);
+}
+
+// ---------------------------------------------------------------------------------------------
+
 fn main() {
-    println!("INCONCLUSIVE property=C07 monitor not built yet");
-    std::process::exit(2);
+    let mut run = Run::from_args(
+        "C07",
+        "exploration",
+        "seeded call sequences (40 generated calls + final read-back) over 6 nested keys on MetaStore / EncryptedStore(chunk 1,7,16,64KiB) vs InMemory; \
+         a sequence is non-trivial when it uses >= 8 call kinds and >= 1 conditional update (distinct by the \
+         sequence of call shapes = kind, modes, size classes, outcome, chunk size); concurrent cases are distinct \
+         by (calls, initial state, store, cache warmth), interleavings by poll order",
+    );
+    install_target_panic_hook();
+    run.assume("reference semantics = object_store 0.14 InMemory; token values opaque (mapped to 'commit #n of key k'), versions ignored");
+    run.assume("documented deviations compared as documented, not against InMemory: delete of a missing key is NotFound; \
+        a self-rename leaves the object untouched; Update without e_tag or with any version is Precondition; \
+        get_ranges rejects a range ending past the logical size; head carries no body; GetOptions::version is not generated");
+    run.assume("get_ranges with an empty range list on a missing key is not compared (Ok([]) in object_store's default implementation, NotFound in InMemory)");
+    run.assume("listing order is not compared (counted); invalid ranges: both sides must fail, variant free");
+    run.assume("writes through a second, lagging instance are strictly sequential (single-writer contract); its reads are not checked");
+    run.assume("last_modified: wrapper-internal consistency only; date conditions are generated relative to each side's own timestamp; the system clock does not step backwards during a run");
+    run.assume("concurrent calls are all mutually overlapping: any order is an admissible linearization; interleaving granularity = backend calls");
+    let t = run.tier;
+    if run.wants("seq") {
+        run.parallel("seq", t.pick(6000, 200_000), 0.55, |c, rng, st| seq_case(c, rng, st, 40));
+    }
+    if run.wants("conc") {
+        let n = (SCENARIOS.len() * 3 * 2 * 2) as u64;
+        run.parallel("conc", n, 0.6, |c, rng, st| conc_case(c, rng, st, t.pick(250, 6000), t.pick(60, 1500)));
+        run.parallel("conc_rand", t.pick(160, 3000), 0.9, |c, rng, st| {
+            conc_rand_case(c, rng, st, t.pick(60, 1500), t.pick(20, 300))
+        });
+    }
+    if run.wants("mt") {
+        run.parallel("conc_mt", t.pick(64, 4000), 1.0, |c, rng, st| mt_case(c, rng, st, t.pick(40, 150)));
+    }
+    // evidence floors: every mechanism the property names must have been observed
+    for k in [
+        "call:put_opts", "call:put_multipart", "call:get_opts", "call:head", "call:get_ranges", "call:list",
+        "call:list_with_offset", "call:list_with_delimiter", "call:delete", "call:delete_stream",
+        "call:copy_opts", "call:rename_opts", "call:cold_swap", "call:aba",
+    ] {
+        run.floor(k, t.pick(100, 5000));
+    }
+    for k in [
+        "put:Overwrite:ok", "put:Create:ok", "put:Create:AlreadyExists", "put:Update[current]:ok",
+        "put:Update[current]:Precondition", "put:Update[stale]:Precondition", "put:Update[foreign]:Precondition",
+        "put:Update[bogus]:Precondition", "put:Update[with_version]:Precondition", "put:Update[no_etag]:Precondition",
+        "put:Update[current]:ok:via_lagging_instance", "put:Update[stale]:Precondition:via_lagging_instance",
+        "mp:complete:ok", "mp:abort:ok", "mp:dropped_without_complete", "mp:part_straddles_chunk_boundary",
+        "mp:deferred_past_other_calls",
+        "copy_opts:Overwrite:ok", "copy_opts:Create:ok", "copy_opts:Create:AlreadyExists", "copy_opts:Overwrite:NotFound",
+        "copy_opts:Overwrite:ok:self", "rename_opts:Overwrite:ok", "rename_opts:Create:ok",
+        "rename_opts:Create:AlreadyExists", "rename_opts:Overwrite:NotFound", "rename_opts:Overwrite:ok:self",
+        "delete:ok", "delete:NotFound", "delete_stream:missing_keys",
+        "get:range:bounded", "get:range:bounded_empty", "get:range:bounded_inverted", "get:range:bounded_start_past_end",
+        "get:range:bounded_end_past_end", "get:range:offset", "get:range:offset_past_end", "get:range:suffix",
+        "get:range:suffix_zero", "get:range:suffix_larger_than_object",
+        "get:tagspec:current", "get:tagspec:stale", "get:tagspec:foreign", "get:tagspec:star", "get:tagspec:wrong",
+        "get:tagspec:list_hit", "get:tagspec:list_miss", "get:tagspec:padded",
+        "get_opts:outcome:ok", "get_opts:outcome:NotFound", "get_opts:outcome:Precondition", "get_opts:outcome:NotModified",
+        "get_opts:outcome:Other", "head:outcome:ok", "head:outcome:NotFound",
+        "get_ranges:ok", "get_ranges:overlapping_or_repeated", "get_ranges:invalid_range", "get_ranges:crosses_chunk_boundary",
+        "list_with_delimiter:with_common_prefixes", "list_with_offset:non_empty",
+        "commits_identical_bytes_same_key", "commits_identical_bytes_other_key",
+        "cold_swaps_with_changed_chunk_size", "cold_instance_first_access_is_bad_update",
+    ] {
+        run.floor(k, t.pick(20, 500));
+    }
+    run.floor("update_attempts_stale_or_foreign_token", t.pick(500, 20_000));
+    run.floor("get:range_crosses_chunk_boundary", t.pick(500, 20_000));
+    run.floor("get:date_condition", t.pick(500, 20_000));
+    run.floor("get:date_condition_paired_with_etag_condition", t.pick(200, 8000));
+    run.floor("cold_swaps", t.pick(500, 20_000));
+    run.floor("aba_sequences", t.pick(100, 4000));
+    run.floor("oracle_token_distinct", t.pick(10_000, 500_000));
+    run.floor("oracle_triple_consistency", t.pick(100_000, 5_000_000));
+    run.floor_set("call_shapes", t.pick(1500, 4000));
+    run.floor("interleavings_explored", t.pick(5000, 200_000));
+    run.floor_set("distinct_interleavings", t.pick(2000, 50_000));
+    run.floor("races_updates_same_token_exactly_one_winner", t.pick(200, 5000));
+    run.floor("conc_reads_returned_a_commit", t.pick(500, 10_000));
+    run.floor("schedule_spaces_exhausted", t.pick(20, 100));
+    run.floor("mt_runs", t.pick(1000, 100_000));
+    run.finish();
 }
